@@ -9,11 +9,11 @@ Ltac Zify.zify_post_hook ::= Z.div_mod_to_equations.
 (* ---------- induction over shapes ---------- *)
 Section ShapeInd.
   Variable P : shape -> Prop.
-  Hypothesis Hscalar : forall s, (match s with SVec _ | SClass _ | SBytes | SMap _ _ | SArr _ _ | SVecBool | STuple _ => False | _ => True end) -> P s.
+  Hypothesis Hscalar : forall s, (match s with SVec _ | SClass _ | SBytes | SMap _ _ _ | SArr _ _ | SVecBool | STuple _ => False | _ => True end) -> P s.
   Hypothesis Hbytes : P SBytes.
   Hypothesis Hvec : forall e, P e -> P (SVec e).
   Hypothesis Hclass : forall ms, Forall (fun m => P (snd m)) ms -> P (SClass ms).
-  Hypothesis Hmap : forall ks e, P e -> P (SMap ks e).
+  Hypothesis Hmap : forall m ks e, P e -> P (SMap m ks e).
   Hypothesis Harr : forall n e, P e -> P (SArr n e).
   Hypothesis Hvb : P SVecBool.
   Hypothesis Htuple : forall ss, Forall P ss -> P (STuple ss).
@@ -26,7 +26,7 @@ Section ShapeInd.
                                  | m :: t => Forall_cons m (shape_ind' (snd m)) (go t)
                                  end) ms)
     | SBytes => Hbytes
-    | SMap ks e => Hmap ks e (shape_ind' e)
+    | SMap m ks e => Hmap m ks e (shape_ind' e)
     | SArr n e => Harr n e (shape_ind' e)
     | SVecBool => Hvb
     | STuple ss => Htuple ss ((fix go (ss : list shape) : Forall P ss :=
@@ -88,7 +88,7 @@ Proof.
     apply Hvals. apply in_map_iff. exists (k, x). split; [reflexivity | exact Hk].
 Qed.
 
-Lemma dok_map ks e kvs : dok (SMap ks e) (MMap kvs) -> doc_ok (MMap kvs) = true.
+Lemma dok_map m ks e kvs : dok (SMap m ks e) (MMap kvs) -> doc_ok (MMap kvs) = true.
 Proof. intros [H | H]; [discriminate H | exact H]. Qed.
 
 Lemma conv_key_refl o ks kk key : conv_key o ks kk = CKey key -> key_eq kk kk = true.
@@ -144,93 +144,104 @@ Section Programs.
   Notation spec_vact := (spec_vact narrow widen o).
   Notation spec_vacts := (spec_vacts narrow widen o).
 
-  (* what the specification answers to the program of one element / one member / one mapped value *)
+  (* what the specification answers to the program of one element / one member / one mapped value, whatever the
+     target holds (i) *)
   Definition elem_ok (s : shape) : Prop :=
-    forall v vs toks r, dok s v -> load_tr s v = (toks, r) -> no_err r ->
-    exists c, spec_areqs (v :: vs) (mk_areqs (elem_prog s v)) = ((toks, None, c), vs).
+    forall i v vs toks r, dok s v -> load_tr s i v = (toks, r) -> no_err r ->
+    exists c, spec_areqs (v :: vs) (mk_areqs (elem_prog s i v)) = ((toks, None, c), vs).
 
-  Definition member_tr (s : shape) (ov : option mpv) : list tok * lres :=
-    match ov with Some x => load_tr s x | None => (absent_toks s, LNot) end.
+  Definition member_tr (s : shape) (i : tv) (ov : option mpv) : list tok * lres :=
+    match ov with Some x => load_tr s i x | None => (absent_toks s, LNot) end.
 
   Definition member_ok (s : shape) : Prop :=
-    forall q kvs toks r, (forall x, lookup (key_of_q q) kvs = Some x -> dok s x) ->
-    member_tr s (lookup (key_of_q q) kvs) = (toks, r) -> no_err r ->
-    exists c, spec_reqs kvs (mk_reqs (member_prog s q (lookup (key_of_q q) kvs))) = (toks, None, c).
+    forall i q kvs toks r, (forall x, lookup (key_of_q q) kvs = Some x -> dok s x) ->
+    member_tr s i (lookup (key_of_q q) kvs) = (toks, r) -> no_err r ->
+    exists c, spec_reqs kvs (mk_reqs (member_prog s i q (lookup (key_of_q q) kvs))) = (toks, None, c).
 
   (* the load from inside the VisitKeys callback, under a key q that finds x *)
   Definition vact_ok (s : shape) : Prop :=
-    forall q kvs x toks r, lookup (key_of_q q) kvs = Some x -> dok s x ->
-    load_tr s x = (toks, r) -> no_err r ->
-    exists c, spec_vact kvs q (vact_prog s x) = (toks, None, c).
+    forall i q kvs x toks r, lookup (key_of_q q) kvs = Some x -> dok s x ->
+    load_tr s i x = (toks, r) -> no_err r ->
+    exists c, spec_vact kvs q (vact_prog s i x) = (toks, None, c).
 
   (* unfolding equations (cbn would expose the mutual fixpoint) *)
-  Lemma elem_prog_vec e v : elem_prog (SVec e) v = [AArr (arr_prog (elem_prog e) v)].
+  Lemma elem_prog_vec e i v : elem_prog (SVec e) i v = [AArr (arr_prog (elem_prog e) (default_of e) (arr_items i) v)].
   Proof. reflexivity. Qed.
-  Lemma member_prog_vec e q ov : member_prog (SVec e) q ov = [RArr q (match ov with Some v => arr_prog (elem_prog e) v | None => ANil end)].
+  Lemma member_prog_vec e i q ov : member_prog (SVec e) i q ov =
+    [RArr q (match ov with Some v => arr_prog (elem_prog e) (default_of e) (arr_items i) v | None => ANil end)].
   Proof. reflexivity. Qed.
-  Lemma elem_prog_class ms v : elem_prog (SClass ms) v = [AObj (match v with MMap kvs => mk_reqs (members_prog member_prog kvs ms) | _ => RNil end)].
+  Lemma elem_prog_class ms i v : elem_prog (SClass ms) i v =
+    [AObj (match v with MMap kvs => mk_reqs (members_prog member_prog kvs (obj_fields i) ms) | _ => RNil end)].
   Proof. reflexivity. Qed.
-  Lemma member_prog_class ms q ov : member_prog (SClass ms) q ov =
-    [RObj q (match ov with Some (MMap kvs) => mk_reqs (members_prog member_prog kvs ms) | _ => RNil end)].
+  Lemma member_prog_class ms i q ov : member_prog (SClass ms) i q ov =
+    [RObj q (match ov with Some (MMap kvs) => mk_reqs (members_prog member_prog kvs (obj_fields i) ms) | _ => RNil end)].
   Proof. reflexivity. Qed.
-  Lemma elem_prog_map ks e v : elem_prog (SMap ks e) v =
-    [AObj (match v with MMap kvs => mk_reqs [REach (mk_vacts (map_acts o ks (vact_prog e) kvs))] | _ => RNil end)].
+  Lemma elem_prog_map m ks e i v : elem_prog (SMap m ks e) i v =
+    [AObj (match v with
+           | MMap kvs => mk_reqs [REach (mk_vacts (map_acts o (map_only m) ks (default_of e) (vact_prog e) (map_m0 m i) kvs))]
+           | _ => RNil
+           end)].
   Proof. reflexivity. Qed.
-  Lemma elem_prog_arr n e v : elem_prog (SArr n e) v = [AArr (arr_prog (elem_prog e) v)].
+  Lemma member_prog_map m ks e i q ov : member_prog (SMap m ks e) i q ov =
+    [RObj q (match ov with
+             | Some (MMap kvs) => mk_reqs [REach (mk_vacts (map_acts o (map_only m) ks (default_of e) (vact_prog e) (map_m0 m i) kvs))]
+             | _ => RNil
+             end)].
   Proof. reflexivity. Qed.
-  Lemma member_prog_arr n e q ov : member_prog (SArr n e) q ov = [RArr q (match ov with Some v => arr_prog (elem_prog e) v | None => ANil end)].
+  Lemma elem_prog_arr n e i v : elem_prog (SArr n e) i v = [AArr (arr_prog (elem_prog e) (default_of e) (arr_items i) v)].
   Proof. reflexivity. Qed.
-  Lemma elem_prog_vb v : elem_prog SVecBool v = [AArr (arr_prog bool_prog v)].
+  Lemma member_prog_arr n e i q ov : member_prog (SArr n e) i q ov =
+    [RArr q (match ov with Some v => arr_prog (elem_prog e) (default_of e) (arr_items i) v | None => ANil end)].
   Proof. reflexivity. Qed.
-  Lemma member_prog_vb q ov : member_prog SVecBool q ov = [RArr q (match ov with Some v => arr_prog bool_prog v | None => ANil end)].
+  Lemma elem_prog_vb i v : elem_prog SVecBool i v = [AArr (arr_prog bool_prog (TBool false) [] v)].
   Proof. reflexivity. Qed.
-  Lemma elem_prog_tuple ss v : elem_prog (STuple ss) v = [AArr (match v with MArr vs => mk_areqs (comps_prog o elem_prog ss vs) | _ => ANil end)].
+  Lemma member_prog_vb i q ov : member_prog SVecBool i q ov = [RArr q (match ov with Some v => arr_prog bool_prog (TBool false) [] v | None => ANil end)].
   Proof. reflexivity. Qed.
-  Lemma member_prog_tuple ss q ov : member_prog (STuple ss) q ov =
-    [RArr q (match ov with Some (MArr vs) => mk_areqs (comps_prog o elem_prog ss vs) | _ => ANil end)].
+  Lemma elem_prog_tuple ss i v : elem_prog (STuple ss) i v =
+    [AArr (match v with MArr vs => mk_areqs (comps_prog o elem_prog ss (arr_items i) vs) | _ => ANil end)].
   Proof. reflexivity. Qed.
-  Lemma member_prog_map ks e q ov : member_prog (SMap ks e) q ov =
-    [RObj q (match ov with Some (MMap kvs) => mk_reqs [REach (mk_vacts (map_acts o ks (vact_prog e) kvs))] | _ => RNil end)].
+  Lemma member_prog_tuple ss i q ov : member_prog (STuple ss) i q ov =
+    [RArr q (match ov with Some (MArr vs) => mk_areqs (comps_prog o elem_prog ss (arr_items i) vs) | _ => ANil end)].
   Proof. reflexivity. Qed.
 
-  (* the loop of SerializeContainer *)
-  Lemma vec_loop e (load_e : mpv -> list tok * lres) (prog_e : mpv -> list areq) (D : mpv -> Prop) :
-    (forall v vs toks r, D v -> load_e v = (toks, r) -> no_err r ->
-       exists c, spec_areqs (v :: vs) (mk_areqs (prog_e v)) = ((toks, None, c), vs)) ->
-    forall vs toks items, Forall D vs -> elems_tr e load_e vs = (toks, items, None) ->
-    exists c, spec_areqs vs (mk_areqs (vec_body prog_e vs)) = ((toks, None, c), []).
+  (* the loop of an array scope *)
+  Lemma vec_loop e (load_e : tv -> mpv -> list tok * lres) (prog_e : tv -> mpv -> list areq) (after : tv -> lres -> tv) (D : mpv -> Prop) :
+    (forall i v vs toks r, D v -> load_e i v = (toks, r) -> no_err r ->
+       exists c, spec_areqs (v :: vs) (mk_areqs (prog_e i v)) = ((toks, None, c), vs)) ->
+    forall vs inits toks items, Forall D vs -> elems_tr e load_e after inits vs = (toks, items, None) ->
+    exists c, spec_areqs vs (mk_areqs (vec_body prog_e (default_of e) inits vs)) = ((toks, None, c), []).
   Proof.
-    intros He. induction vs as [|v vs IH]; intros toks items HD H; cbn [elems_tr] in H.
+    intros He. induction vs as [|v vs IH]; intros inits toks items HD H; cbn [elems_tr vec_body] in *.
     - injection H as <- _. exists true. reflexivity.
     - inversion HD as [|? ? HDv HDvs]; subst.
-      destruct (load_e v) as [t r] eqn:El.
-      assert (Hr : no_err r /\ exists t' items', elems_tr e load_e vs = (t', items', None) /\ toks = KIsEnd false :: t ++ t').
+      destruct (load_e (hd (default_of e) inits) v) as [t r] eqn:El.
+      assert (Hr : no_err r /\ exists t' items', elems_tr e load_e after (tl inits) vs = (t', items', None) /\ toks = KIsEnd false :: t ++ t').
       { destruct r; [| |discriminate H].
-        all: destruct (elems_tr e load_e vs) as [[t' items'] err]; injection H as <- _ ->; split; [exact I | eauto]. }
+        all: destruct (elems_tr e load_e after (tl inits) vs) as [[t' items'] err]; injection H as <- _ ->; split; [exact I | eauto]. }
       destruct Hr as [Hne [t' [items' [Hrest ->]]]].
-      destruct (He v vs t r HDv El Hne) as [c1 E1]. destruct (IH t' items' HDvs Hrest) as [c2 E2].
-      unfold vec_body. cbn [flat_map]. rewrite <- !app_assoc. cbn [app mk_areqs]. rewrite spec_areqs_cons.
-      cbn [MpScopeSpec.spec_areq].
-      rewrite spec_areqs_app, E1. fold (vec_body prog_e vs). rewrite E2.
+      destruct (He _ v vs t r HDv El Hne) as [c1 E1]. destruct (IH (tl inits) t' items' HDvs Hrest) as [c2 E2].
+      cbn [mk_areqs]. rewrite spec_areqs_cons. cbn [MpScopeSpec.spec_areq].
+      rewrite spec_areqs_app, E1, E2.
       eexists. cbn [app andb]. reflexivity.
   Qed.
 
   (* the loop over the members of a class *)
   Lemma members_loop kvs ms : Forall (fun m => member_ok (snd m)) ms ->
     (forall name s' x, In (name, s') ms -> lookup (KStr name) kvs = Some x -> dok s' x) ->
-    forall toks fields, members_tr load_tr kvs ms = (toks, fields, None) ->
-    exists c, spec_reqs kvs (mk_reqs (members_prog member_prog kvs ms)) = (toks, None, c).
+    forall inits toks fields, members_tr load_tr kvs inits ms = (toks, fields, None) ->
+    exists c, spec_reqs kvs (mk_reqs (members_prog member_prog kvs inits ms)) = (toks, None, c).
   Proof.
-    induction 1 as [|[name s'] ms Hm _ IH]; intros HD toks fields H; cbn [members_tr members_prog] in *.
+    induction 1 as [|[name s'] ms Hm _ IH]; intros HD inits toks fields H; cbn [members_tr members_prog] in *.
     - injection H as <- _. exists true. reflexivity.
     - cbn [snd] in Hm.
-      destruct (match lookup (KStr name) kvs with Some x => load_tr s' x | None => (absent_toks s', LNot) end) as [t r] eqn:El.
-      assert (Hr : no_err r /\ exists t' f', members_tr load_tr kvs ms = (t', f', None) /\ toks = t ++ t').
+      set (i0 := match inits with (_, x) :: _ => x | [] => default_of s' end) in *.
+      destruct (match lookup (KStr name) kvs with Some x => load_tr s' i0 x | None => (absent_toks s', LNot) end) as [t r] eqn:El.
+      assert (Hr : no_err r /\ exists t' f', members_tr load_tr kvs (tl inits) ms = (t', f', None) /\ toks = t ++ t').
       { destruct r; [| |discriminate H].
-        all: destruct (members_tr load_tr kvs ms) as [[t' f'] err]; injection H as <- _ ->; split; [exact I | eauto]. }
+        all: destruct (members_tr load_tr kvs (tl inits) ms) as [[t' f'] err]; injection H as <- _ ->; split; [exact I | eauto]. }
       destruct Hr as [Hne [t' [f' [Hrest ->]]]].
-      destruct (Hm (QStr name) kvs t r (fun x Hx => HD name s' x (or_introl eq_refl) Hx) El Hne) as [c1 E1].
-      destruct (IH (fun n s0 x Hin => HD n s0 x (or_intror Hin)) t' f' Hrest) as [c2 E2].
+      destruct (Hm i0 (QStr name) kvs t r (fun x Hx => HD name s' x (or_introl eq_refl) Hx) El Hne) as [c1 E1].
+      destruct (IH (fun n s0 x Hin => HD n s0 x (or_intror Hin)) (tl inits) t' f' Hrest) as [c2 E2].
       rewrite spec_reqs_app. cbn [key_of_q] in E1. rewrite E1, E2. eexists. reflexivity.
   Qed.
 
@@ -241,36 +252,49 @@ Section Programs.
       try (exfalso; exact Hn); split; reflexivity.
   Qed.
 
-  (* a sequence container at an element position / as a member *)
-  Lemma vec_elem e load_e prog_e mk (D : mpv -> Prop) v vs toks r :
-    (forall v vs toks r, D v -> load_e v = (toks, r) -> no_err r ->
-       exists c, spec_areqs (v :: vs) (mk_areqs (prog_e v)) = ((toks, None, c), vs)) ->
+  (* an array scope at an element position / as a member: the body is the loop, whatever becomes of the elements *)
+  Definition arr_tr (e : shape) (load_e : tv -> mpv -> list tok * lres) (after : tv -> lres -> tv) (mk : list tv -> tv) (inits : list tv) (v : mpv) : list tok * lres :=
+    match v with
+    | MArr vs =>
+      match elems_tr e load_e after inits vs with
+      | (t, items, None) => (KOpen :: t ++ [KClose], LOk (mk items))
+      | (t, _, Some err) => (KOpen :: t, LErr err)
+      end
+    | _ => no_container o v
+    end.
+
+  Lemma vec_is_arr e load_e mk inits v : vec_tr o e load_e mk inits v = arr_tr e load_e (fun _ r => fill e r) mk inits v.
+  Proof. reflexivity. Qed.
+
+  Lemma vec_elem e load_e prog_e after mk (D : mpv -> Prop) inits v vs toks r :
+    (forall i v vs toks r, D v -> load_e i v = (toks, r) -> no_err r ->
+       exists c, spec_areqs (v :: vs) (mk_areqs (prog_e i v)) = ((toks, None, c), vs)) ->
     (forall l, v = MArr l -> Forall D l) ->
-    vec_tr o e load_e mk v = (toks, r) -> no_err r ->
-    exists c, spec_areq (v :: vs) (AArr (arr_prog prog_e v)) = ((toks, None, c), vs).
+    arr_tr e load_e after mk inits v = (toks, r) -> no_err r ->
+    exists c, spec_areq (v :: vs) (AArr (arr_prog prog_e (default_of e) inits v)) = ((toks, None, c), vs).
   Proof.
-    intros He HD H Hn. rewrite spec_areq_arr. unfold vec_tr in H.
+    intros He HD H Hn. rewrite spec_areq_arr. unfold arr_tr in H.
     destruct v; try (destruct (no_container_spec _ _ _ H Hn) as [E _]; rewrite E; eexists; reflexivity).
-    cbn [arr_prog]. destruct (elems_tr e load_e l) as [[t items] err] eqn:Et. destruct err as [err|].
+    cbn [arr_prog]. destruct (elems_tr e load_e after inits l) as [[t items] err] eqn:Et. destruct err as [err|].
     { injection H as _ <-. destruct Hn. }
-    injection H as <- _. destruct (vec_loop e load_e prog_e D He l t items (HD l eq_refl) Et) as [c E]. rewrite E.
+    injection H as <- _. destruct (vec_loop e load_e prog_e after D He l inits t items (HD l eq_refl) Et) as [c E]. rewrite E.
     eexists. reflexivity.
   Qed.
 
-  Lemma vec_member e load_e prog_e mk (D : mpv -> Prop) q kvs toks r :
-    (forall v vs toks r, D v -> load_e v = (toks, r) -> no_err r ->
-       exists c, spec_areqs (v :: vs) (mk_areqs (prog_e v)) = ((toks, None, c), vs)) ->
+  Lemma vec_member e load_e prog_e after mk (D : mpv -> Prop) inits q kvs toks r :
+    (forall i v vs toks r, D v -> load_e i v = (toks, r) -> no_err r ->
+       exists c, spec_areqs (v :: vs) (mk_areqs (prog_e i v)) = ((toks, None, c), vs)) ->
     (forall l, lookup (key_of_q q) kvs = Some (MArr l) -> Forall D l) ->
-    (match lookup (key_of_q q) kvs with Some x => vec_tr o e load_e mk x | None => ([KNone], LNot) end) = (toks, r) -> no_err r ->
-    exists c, spec_req kvs (RArr q (match lookup (key_of_q q) kvs with Some v => arr_prog prog_e v | None => ANil end)) = (toks, None, c).
+    (match lookup (key_of_q q) kvs with Some x => arr_tr e load_e after mk inits x | None => ([KNone], LNot) end) = (toks, r) -> no_err r ->
+    exists c, spec_req kvs (RArr q (match lookup (key_of_q q) kvs with Some v => arr_prog prog_e (default_of e) inits v | None => ANil end)) = (toks, None, c).
   Proof.
     intros He HD H Hn. rewrite spec_req_arr. destruct (lookup (key_of_q q) kvs) as [v|].
     2:{ injection H as <- _. eexists. reflexivity. }
-    unfold vec_tr in H.
+    unfold arr_tr in H.
     destruct v; try (destruct (no_container_spec _ _ _ H Hn) as [E _]; rewrite E; eexists; reflexivity).
-    cbn [arr_prog]. destruct (elems_tr e load_e l) as [[t items] err] eqn:Et. destruct err as [err|].
+    cbn [arr_prog]. destruct (elems_tr e load_e after inits l) as [[t items] err] eqn:Et. destruct err as [err|].
     { injection H as _ <-. destruct Hn. }
-    injection H as <- _. destruct (vec_loop e load_e prog_e D He l t items (HD l eq_refl) Et) as [c E]. rewrite E.
+    injection H as <- _. destruct (vec_loop e load_e prog_e after D He l inits t items (HD l eq_refl) Et) as [c E]. rewrite E.
     eexists. reflexivity.
   Qed.
 
@@ -278,27 +302,28 @@ Section Programs.
   Lemma any_all l : Forall any l.
   Proof. apply Forall_forall. intros x _. exact I. Qed.
 
-  Lemma u8_elem v vs toks r : any v -> scalar_tr narrow widen o (SInt IU8) (TgInt (mkIty false 8)) v = (toks, r) -> no_err r ->
-    exists c, spec_areqs (v :: vs) (mk_areqs (u8_prog v)) = ((toks, None, c), vs).
+  Lemma u8_elem i v vs toks r : any v -> scalar_ld narrow widen o (SInt IU8) (TgInt (mkIty false 8)) i v = (toks, r) -> no_err r ->
+    exists c, spec_areqs (v :: vs) (mk_areqs (u8_prog i v)) = ((toks, None, c), vs).
   Proof.
     intros _ H Hn. unfold u8_prog. cbn [mk_areqs]. rewrite spec_areqs_cons. cbn [MpScopeSpec.spec_areq MpScopeSpec.spec_areqs].
-    unfold scalar_tr in H. destruct (typed_spec narrow widen o (TgInt (mkIty false 8)) v); injection H as <- <-;
+    unfold scalar_ld, scalar_tr in H. destruct (typed_spec narrow widen o (TgInt (mkIty false 8)) v); injection H as <- <-;
       try (exfalso; exact Hn); cbn [of_tres]; eexists; reflexivity.
   Qed.
 
-  Lemma bool_elem v vs toks r : any v -> scalar_tr narrow widen o SBool (TgInt (mkIty false 1)) v = (toks, r) -> no_err r ->
-    exists c, spec_areqs (v :: vs) (mk_areqs (bool_prog v)) = ((toks, None, c), vs).
+  Lemma bool_elem i v vs toks r : any v -> scalar_ld narrow widen o SBool (TgInt (mkIty false 1)) i v = (toks, r) -> no_err r ->
+    exists c, spec_areqs (v :: vs) (mk_areqs (bool_prog i v)) = ((toks, None, c), vs).
   Proof.
     intros _ H Hn. unfold bool_prog. cbn [mk_areqs]. rewrite spec_areqs_cons. cbn [MpScopeSpec.spec_areq MpScopeSpec.spec_areqs].
-    unfold scalar_tr in H. destruct (typed_spec narrow widen o (TgInt (mkIty false 1)) v); injection H as <- <-;
+    unfold scalar_ld, scalar_tr in H. destruct (typed_spec narrow widen o (TgInt (mkIty false 1)) v); injection H as <- <-;
       try (exfalso; exact Hn); cbn [of_tres]; eexists; reflexivity.
   Qed.
 
-  (* an error-free load into a fixed-size array consumes the answers a sequence container would *)
-  Lemma arr_as_vec n e v toks r : load_tr (SArr n e) v = (toks, r) -> no_err r -> vec_tr o e (load_tr e) TArr v = (toks, r).
+  (* an error-free load into a fixed-size array consumes the answers of an array scope whose loop runs to the end *)
+  Lemma arr_as_vec n e i v toks r : load_tr (SArr n e) i v = (toks, r) -> no_err r ->
+    arr_tr e (load_tr e) keep TArr (arr_items i) v = (toks, r).
   Proof.
-    intros H Hn. cbn [MpLoadModel.load_tr] in H. unfold vec_tr. destruct v; try exact H.
-    destruct (elems_tr e (load_tr e) (firstn n l)) as [[t items] err] eqn:Et. destruct err as [err|].
+    intros H Hn. cbn [MpLoadModel.load_tr] in H. unfold arr_tr. destruct v; try exact H.
+    destruct (elems_tr e (load_tr e) keep (arr_items i) (firstn n l)) as [[t items] err] eqn:Et. destruct err as [err|].
     { injection H as _ <-. destruct Hn. }
     destruct (Nat.eqb (length l) n) eqn:En; [|injection H as _ <-; destruct Hn].
     apply Nat.eqb_eq in En. subst n. rewrite firstn_all in Et. rewrite Et. exact H.
@@ -306,24 +331,26 @@ Section Programs.
 
   (* std::vector<bool> consumes the answers a sequence container of bool would (the values differ) *)
   Lemma bools_toks ld : forall vs prev t items err, bools_tr ld prev vs = (t, items, err) ->
-    exists items', elems_tr SBool ld vs = (t, items', err).
+    forall after inits, exists items', elems_tr SBool (fun _ => ld) after inits vs = (t, items', err).
   Proof.
-    induction vs as [|v vs IH]; intros prev t items err H; cbn [bools_tr elems_tr] in *.
+    induction vs as [|v vs IH]; intros prev t items err H after inits; cbn [bools_tr elems_tr] in *.
     - injection H as <- _ <-. eexists. reflexivity.
     - destruct (ld v) as [t0 r0]. destruct r0 as [x| |e0].
       + destruct (bools_tr ld (match x with TBool b => b | _ => prev end) vs) as [[t' i'] e'] eqn:Eb. injection H as <- _ <-.
-        destruct (IH _ _ _ _ Eb) as [i2 E2]. rewrite E2. eexists. reflexivity.
+        destruct (IH _ _ _ _ Eb after (tl inits)) as [i2 E2]. rewrite E2. eexists. reflexivity.
       + destruct (bools_tr ld prev vs) as [[t' i'] e'] eqn:Eb. injection H as <- _ <-.
-        destruct (IH _ _ _ _ Eb) as [i2 E2]. rewrite E2. eexists. reflexivity.
+        destruct (IH _ _ _ _ Eb after (tl inits)) as [i2 E2]. rewrite E2. eexists. reflexivity.
       + injection H as <- _ <-. eexists. reflexivity.
   Qed.
 
-  Lemma vb_as_vec v toks r : load_tr SVecBool v = (toks, r) -> no_err r ->
-    exists r', vec_tr o SBool (scalar_tr narrow widen o SBool (TgInt (mkIty false 1))) TArr v = (toks, r') /\ no_err r'.
+  Lemma vb_as_vec i v toks r : load_tr SVecBool i v = (toks, r) -> no_err r ->
+    exists r', arr_tr SBool (scalar_ld narrow widen o SBool (TgInt (mkIty false 1))) (fun _ r => fill SBool r) TArr [] v = (toks, r') /\ no_err r'.
   Proof.
-    intros H Hn. cbn [MpLoadModel.load_tr] in H. unfold vec_tr. destruct v; try (exists r; split; [exact H | exact Hn]).
+    intros H Hn. cbn [MpLoadModel.load_tr] in H. unfold arr_tr. destruct v; try (exists r; split; [exact H | exact Hn]).
     destruct (bools_tr (scalar_tr narrow widen o SBool (TgInt (mkIty false 1))) false l) as [[t items] err] eqn:Et.
-    destruct (bools_toks _ _ _ _ _ _ Et) as [items' E']. rewrite E'. destruct err as [err|].
+    destruct (bools_toks _ _ _ _ _ _ Et (fun _ r => fill SBool r) []) as [items' E'].
+    change (fun _ : tv => scalar_tr narrow widen o SBool (TgInt (mkIty false 1))) with (scalar_ld narrow widen o SBool (TgInt (mkIty false 1))) in E'.
+    rewrite E'. destruct err as [err|].
     { injection H as _ <-. destruct Hn. }
     injection H as <- _. eexists. split; [reflexivity | exact I].
   Qed.
@@ -349,32 +376,32 @@ Section Programs.
     spec_req kvs (RBin q n) = ([KNone], None, true).
   Proof. cbn [MpScopeSpec.spec_req]. destruct (lookup (key_of_q q) kvs) as [v|]; [|reflexivity]. destruct v; intros H; try discriminate H; reflexivity. Qed.
 
-  Lemma bytes_fallback_elem v vs t r0 : is_bin v = false ->
-    vec_tr o (SInt IU8) (scalar_tr narrow widen o (SInt IU8) (TgInt (mkIty false 8))) (fun items => TBytes (map byte_of items)) v = (t, r0) ->
-    no_err r0 ->
-    exists c, spec_areqs (v :: vs) (mk_areqs [ABin 0; AArr (arr_prog u8_prog v)]) = ((KNone :: t, None, c), vs).
+  Notation u8_tr := (vec_tr o (SInt IU8) (scalar_ld narrow widen o (SInt IU8) (TgInt (mkIty false 8))) (fun items => TBytes (map byte_of items)) []).
+
+  Lemma bytes_fallback_elem v vs t r0 : is_bin v = false -> u8_tr v = (t, r0) -> no_err r0 ->
+    exists c, spec_areqs (v :: vs) (mk_areqs [ABin 0; AArr (arr_prog u8_prog (TInt IU8 0) [] v)]) = ((KNone :: t, None, c), vs).
   Proof.
     intros Hb Ev Hn. cbn [mk_areqs]. rewrite spec_areqs_cons, (spec_areq_bin_other v vs 0 Hb).
-    destruct (vec_elem _ _ u8_prog _ any _ vs t r0 u8_elem (fun l _ => any_all l) Ev Hn) as [c E].
-    rewrite spec_areqs_cons, E. cbn [MpScopeSpec.spec_areqs]. eexists. rewrite app_nil_r. reflexivity.
+    rewrite vec_is_arr in Ev.
+    destruct (vec_elem (SInt IU8) _ u8_prog _ _ any [] v vs t r0 u8_elem (fun l _ => any_all l) Ev Hn) as [c E].
+    cbn [default_of] in E. rewrite spec_areqs_cons, E. cbn [MpScopeSpec.spec_areqs]. eexists. rewrite app_nil_r. reflexivity.
   Qed.
 
-  Lemma bytes_fallback_member q kvs v t r0 : lookup (key_of_q q) kvs = Some v -> is_bin v = false ->
-    vec_tr o (SInt IU8) (scalar_tr narrow widen o (SInt IU8) (TgInt (mkIty false 8))) (fun items => TBytes (map byte_of items)) v = (t, r0) ->
-    no_err r0 ->
-    exists c, spec_reqs kvs (mk_reqs [RBin q 0; RArr q (arr_prog u8_prog v)]) = (KNone :: t, None, c).
+  Lemma bytes_fallback_member q kvs v t r0 : lookup (key_of_q q) kvs = Some v -> is_bin v = false -> u8_tr v = (t, r0) -> no_err r0 ->
+    exists c, spec_reqs kvs (mk_reqs [RBin q 0; RArr q (arr_prog u8_prog (TInt IU8 0) [] v)]) = (KNone :: t, None, c).
   Proof.
     intros El Hb Ev Hn. cbn [mk_reqs]. rewrite spec_reqs_cons, spec_req_bin_other by (rewrite El; exact Hb).
-    pose proof (vec_member (SInt IU8) _ u8_prog (fun items => TBytes (map byte_of items)) any q kvs t r0 u8_elem (fun l _ => any_all l)) as Hv. rewrite El in Hv.
-    destruct (Hv Ev Hn) as [c E]. rewrite spec_reqs_cons, E. cbn [MpScopeSpec.spec_reqs]. eexists. rewrite app_nil_r. reflexivity.
+    rewrite vec_is_arr in Ev.
+    pose proof (vec_member (SInt IU8) _ u8_prog (fun _ r => fill (SInt IU8) r) (fun items => TBytes (map byte_of items)) any [] q kvs t r0 u8_elem (fun l _ => any_all l)) as Hv. rewrite El in Hv.
+    destruct (Hv Ev Hn) as [c E]. cbn [default_of] in E. rewrite spec_reqs_cons, E. cbn [MpScopeSpec.spec_reqs]. eexists. rewrite app_nil_r. reflexivity.
   Qed.
 
   Lemma binarr_nonbin q kvs x n body : lookup (key_of_q q) kvs = Some x -> is_bin x = false ->
     spec_vact kvs q (VBinArr n body) = match spec_req kvs (RArr q body) with (t2, e2, c2) => (KNone :: t2, e2, c2) end.
   Proof. intros Hl Hb. rewrite spec_vact_binarr, spec_req_arr, Hl. destruct x; try discriminate Hb; reflexivity. Qed.
 
-  (* ---------- std::tuple ---------- *)
-  (* an error-free sequence of requests is the same inside the tuple loader's try block: nothing is caught *)
+  (* ---------- guarded requests (not issued by the layer since 9e55af6) ---------- *)
+  (* an error-free sequence of requests is the same inside a try block: nothing is caught *)
   Lemma try_free p : forall vs t c vs', spec_areqs vs (mk_areqs p) = ((t, None, c), vs') ->
     spec_areqs vs (mk_areqs (map ATry p)) = ((t, None, c), vs').
   Proof.
@@ -390,50 +417,50 @@ Section Programs.
   Lemma caught_on_empty a : guarded a = true -> spec_areq [] (ATry a) = (([KCaught], None, true), []).
   Proof. destruct a; intros H; try discriminate H; reflexivity. Qed.
 
-  (* the components of a tuple against the elements of the document array *)
+  (* ---------- std::tuple ---------- *)
   Lemma comps_loop ss : Forall elem_ok ss ->
-    forall vs toks items, (forall s v, In (s, v) (combine ss vs) -> dok s v) ->
-    comps_tr o load_tr ss vs = (toks, items, None) ->
-    exists c vs', spec_areqs vs (mk_areqs (comps_prog o elem_prog ss vs)) = ((toks, None, c), vs').
+    forall inits vs toks items, (forall s v, In (s, v) (combine ss vs) -> dok s v) ->
+    comps_tr o load_tr ss inits vs = (toks, items, None) ->
+    exists c vs', spec_areqs vs (mk_areqs (comps_prog o elem_prog ss inits vs)) = ((toks, None, c), vs').
   Proof.
-    induction 1 as [|s ss Hs _ IH]; intros vs toks items HD H; cbn [comps_tr comps_prog] in *.
+    induction 1 as [|s ss Hs _ IH]; intros inits vs toks items HD H; cbn [comps_tr comps_prog] in *.
     - destruct vs as [|v vs].
       + injection H as <- _. eexists _, _. reflexivity.
       + destruct (o_mismatch o); [discriminate H|]. injection H as <- _. eexists _, _. reflexivity.
     - destruct vs as [|v vs].
       + destruct (o_mismatch o); [discriminate H|]. injection H as <- _. eexists _, _. reflexivity.
-      + destruct (load_tr s v) as [t r] eqn:El.
-        assert (Hr : no_err r /\ exists t' items', comps_tr o load_tr ss vs = (t', items', None) /\ toks = KIsEnd false :: t ++ t').
+      + destruct (load_tr s (hd (default_of s) inits) v) as [t r] eqn:El.
+        assert (Hr : no_err r /\ exists t' items', comps_tr o load_tr ss (tl inits) vs = (t', items', None) /\ toks = KIsEnd false :: t ++ t').
         { destruct r; [| |discriminate H].
-          all: destruct (comps_tr o load_tr ss vs) as [[t' items'] err]; injection H as <- _ ->; split; [exact I | eauto]. }
+          all: destruct (comps_tr o load_tr ss (tl inits) vs) as [[t' items'] err]; injection H as <- _ ->; split; [exact I | eauto]. }
         destruct Hr as [Hne [t' [items' [Hrest ->]]]].
-        destruct (Hs v vs t r (HD s v (or_introl eq_refl)) El Hne) as [c1 E1].
-        destruct (IH vs t' items' (fun s0 v0 Hin => HD s0 v0 (or_intror Hin)) Hrest) as [c2 [vs' E2]].
+        destruct (Hs _ v vs t r (HD s v (or_introl eq_refl)) El Hne) as [c1 E1].
+        destruct (IH (tl inits) vs t' items' (fun s0 v0 Hin => HD s0 v0 (or_intror Hin)) Hrest) as [c2 [vs' E2]].
         cbn [mk_areqs]. rewrite spec_areqs_cons. cbn [MpScopeSpec.spec_areq].
         rewrite spec_areqs_app, E1, E2. eexists _, _. reflexivity.
   Qed.
 
-  Lemma tuple_body ss : Forall elem_ok ss -> forall v toks r, dok (STuple ss) v -> load_tr (STuple ss) v = (toks, r) -> no_err r ->
+  Lemma tuple_body ss : Forall elem_ok ss -> forall i v toks r, dok (STuple ss) v -> load_tr (STuple ss) i v = (toks, r) -> no_err r ->
     exists c, (match v with
                | MArr vs2 =>
-                 match spec_areqs vs2 (match v with MArr vs => mk_areqs (comps_prog o elem_prog ss vs) | _ => ANil end) with
+                 match spec_areqs vs2 (match v with MArr vs => mk_areqs (comps_prog o elem_prog ss (arr_items i) vs) | _ => ANil end) with
                  | (r', lft) => child r' (match lft with [] => true | _ => false end)
                  end
                | _ => not_container o v
                end) = (toks, None, c).
   Proof.
-    intros Hss v toks r HD H Hn. cbn [MpLoadModel.load_tr] in H.
+    intros Hss i v toks r HD H Hn. cbn [MpLoadModel.load_tr] in H.
     destruct v; try (destruct (no_container_spec _ _ _ H Hn) as [E _]; rewrite E; eexists; reflexivity).
-    destruct (comps_tr o load_tr ss l) as [[t items] err] eqn:Et. destruct err as [err|].
+    destruct (comps_tr o load_tr ss (arr_items i) l) as [[t items] err] eqn:Et. destruct err as [err|].
     { injection H as _ <-. destruct Hn. }
-    injection H as <- _. destruct (comps_loop ss Hss l t items (dok_tuple ss l HD) Et) as [c [vs' E]]. rewrite E.
+    injection H as <- _. destruct (comps_loop ss Hss (arr_items i) l t items (dok_tuple ss l HD) Et) as [c [vs' E]]. rewrite E.
     eexists. reflexivity.
   Qed.
 
   (* the keyed load from inside the callback is the keyed load of a member whose key finds the value *)
   Lemma vact_of_member s : member_ok s -> vact_ok s.
   Proof.
-    intros Hm q kvs x toks r Hl HD H Hn. specialize (Hm q kvs toks r). unfold member_tr in Hm. rewrite Hl in Hm.
+    intros Hm i q kvs x toks r Hl HD H Hn. specialize (Hm i q kvs toks r). unfold member_tr in Hm. rewrite Hl in Hm.
     assert (HD' : forall y, Some x = Some y -> dok s y) by (intros y Hy; injection Hy as <-; exact HD).
     destruct (Hm HD' H Hn) as [c E]. clear Hm HD'.
     destruct s; cbn [MpLoadModel.member_prog MpLoadModel.vact_prog target_of] in *;
@@ -441,23 +468,23 @@ Section Programs.
     (* byte container *)
     destruct (is_bin x) eqn:Hb.
     - destruct x; try discriminate Hb. apply one_req_inv in E. destruct E as [c' E]. exists c'. exact E.
-    - assert (E' : spec_reqs kvs (mk_reqs [RBin q 0; RArr q (arr_prog u8_prog x)]) = (toks, None, c))
+    - assert (E' : spec_reqs kvs (mk_reqs [RBin q 0; RArr q (arr_prog u8_prog (TInt IU8 0) [] x)]) = (toks, None, c))
         by (destruct x; try discriminate Hb; exact E).
-      assert (G : vact_prog SBytes x = VBinArr 0 (arr_prog u8_prog x)) by (destruct x; try discriminate Hb; reflexivity).
-      cbn [MpLoadModel.vact_prog]. change (match x with MBin bs => VBin (length bs) | _ => VBinArr 0 (arr_prog u8_prog x) end) with (vact_prog SBytes x).
+      assert (G : vact_prog SBytes i x = VBinArr 0 (arr_prog u8_prog (TInt IU8 0) [] x)) by (destruct x; try discriminate Hb; reflexivity).
+      cbn [MpLoadModel.vact_prog]. change (match x with MBin bs => VBin (length bs) | _ => VBinArr 0 (arr_prog u8_prog (TInt IU8 0) [] x) end) with (vact_prog SBytes i x).
       rewrite G. clear E G.
       cbn [mk_reqs] in E'. rewrite spec_reqs_cons, spec_req_bin_other in E' by (rewrite Hl; exact Hb).
       rewrite spec_reqs_cons in E'. rewrite (binarr_nonbin q kvs x 0 _ Hl Hb).
-      destruct (spec_req kvs (RArr q (arr_prog u8_prog x))) as [[t2 e2] c2].
+      destruct (spec_req kvs (RArr q (arr_prog u8_prog (TInt IU8 0) [] x))) as [[t2 e2] c2].
       destruct e2 as [e2|]; [discriminate E'|]. cbn [MpScopeSpec.spec_reqs app] in E'. rewrite app_nil_r in E'.
       injection E' as <- _. eexists. reflexivity.
   Qed.
 
-  (* the loop of SerializeMapImpl over the members of the document *)
-  Lemma entries_loop ks e kvs : vact_ok e -> doc_ok (MMap kvs) = true ->
+  (* the loop of SerializeMapImpl over the members of the document, in any mode, into a map that holds m0 *)
+  Lemma entries_loop only ks e m0 kvs : vact_ok e -> doc_ok (MMap kvs) = true ->
     forall kvs2 kvs1, kvs = kvs1 ++ kvs2 ->
-    forall toks es, entries_tr o ks e (load_tr e) kvs2 = (toks, es, None) ->
-    exists c, spec_vacts kvs kvs2 (mk_vacts (map_acts o ks (vact_prog e) kvs2)) = (toks, None, c).
+    forall toks es, entries_tr o only ks e (load_tr e) m0 kvs2 = (toks, es, None) ->
+    exists c, spec_vacts kvs kvs2 (mk_vacts (map_acts o only ks (default_of e) (vact_prog e) m0 kvs2)) = (toks, None, c).
   Proof.
     intros He Hok. destruct (doc_ok_map _ Hok) as [Hsup [Hdist Hvals]].
     induction kvs2 as [|[k x] kvs2 IH]; intros kvs1 E toks es H.
@@ -466,20 +493,34 @@ Section Programs.
       assert (E' : kvs = (kvs1 ++ [(k, x)]) ++ kvs2) by (rewrite <- app_assoc; exact E).
       destruct (keyden k) as [kk|] eqn:Ek; [|discriminate H].
       destruct (conv_key o ks kk) as [key| |err] eqn:Ec; [| |discriminate H].
-      + destruct (load_tr e x) as [t r] eqn:El.
-        assert (Hr : no_err r /\ exists t' es', entries_tr o ks e (load_tr e) kvs2 = (t', es', None) /\ toks = t ++ t').
-        { destruct r; [| |discriminate H].
-          all: destruct (entries_tr o ks e (load_tr e) kvs2) as [[t' es'] err]; injection H as <- _ ->; split; [exact I | eauto]. }
-        destruct Hr as [Hne [t' [es' [Hrest ->]]]].
-        assert (Hl : lookup (key_of_q (qkey_of_key kk)) kvs = Some x).
-        { assert (Hm : kmatch (qkey_of_key kk) (k, x) = true)
-            by (unfold kmatch; cbn [fst]; rewrite Ek, key_of_qkey_of_key; exact (conv_key_refl o ks kk key Ec)).
-          rewrite E in Hdist. destruct (match_unique _ _ _ _ _ Hdist Hm) as [Hno _].
-          rewrite E, (lookup_skip _ _ _ Hno). apply lookup_hit. exact Hm. }
-        assert (HDx : dok e x).
-        { right. apply Hvals. rewrite E, map_app. apply in_or_app. right. left. reflexivity. }
-        destruct (He (qkey_of_key kk) kvs x t r Hl HDx El Hne) as [c1 E1]. rewrite E1.
-        destruct (IH (kvs1 ++ [(k, x)]) E' t' es' Hrest) as [c2 E2]. rewrite E2. eexists. reflexivity.
+      + assert (Hskip : forall toks es, entries_tr o only ks e (load_tr e) m0 kvs2 = (toks, es, None) ->
+                  exists c, (let '(t2, e2, c2) := spec_vacts kvs kvs2 (mk_vacts (map_acts o only ks (default_of e) (vact_prog e) m0 kvs2)) in
+                             ([] ++ t2, e2, true && c2)) = (toks, None, c)).
+        { intros toks0 es0 H0. destruct (IH (kvs1 ++ [(k, x)]) E' toks0 es0 H0) as [c2 E2]. rewrite E2. eexists. reflexivity. }
+        assert (Hload : forall i0, (match load_tr e i0 x with
+                                    | (t, LErr err) => (t, [], Some err)
+                                    | (t, r) => match entries_tr o only ks e (load_tr e) m0 kvs2 with (t', es, err) => (t ++ t', (key, keep i0 r) :: es, err) end
+                                    end) = (toks, es, None) ->
+                  exists c, (match spec_vact kvs (qkey_of_key kk) (vact_prog e i0 x) with
+                             | (t1, None, c1) => match spec_vacts kvs kvs2 (mk_vacts (map_acts o only ks (default_of e) (vact_prog e) m0 kvs2)) with
+                                                 | (t2, e2, c2) => (t1 ++ t2, e2, c1 && c2) end
+                             | failed => failed end) = (toks, None, c)).
+        { intros i0 H0. destruct (load_tr e i0 x) as [t r] eqn:El.
+          assert (Hr : no_err r /\ exists t' es', entries_tr o only ks e (load_tr e) m0 kvs2 = (t', es', None) /\ toks = t ++ t').
+          { destruct r; [| |discriminate H0].
+            all: destruct (entries_tr o only ks e (load_tr e) m0 kvs2) as [[t' es'] err]; injection H0 as <- _ ->; split; [exact I | eauto]. }
+          destruct Hr as [Hne [t' [es' [Hrest ->]]]].
+          assert (Hl : lookup (key_of_q (qkey_of_key kk)) kvs = Some x).
+          { assert (Hm : kmatch (qkey_of_key kk) (k, x) = true)
+              by (unfold kmatch; cbn [fst]; rewrite Ek, key_of_qkey_of_key; exact (conv_key_refl o ks kk key Ec)).
+            rewrite E in Hdist. destruct (match_unique _ _ _ _ _ Hdist Hm) as [Hno _].
+            rewrite E, (lookup_skip _ _ _ Hno). apply lookup_hit. exact Hm. }
+          assert (HDx : dok e x).
+          { right. apply Hvals. rewrite E, map_app. apply in_or_app. right. left. reflexivity. }
+          destruct (He i0 (qkey_of_key kk) kvs x t r Hl HDx El Hne) as [c1 E1]. rewrite E1.
+          destruct (IH (kvs1 ++ [(k, x)]) E' t' es' Hrest) as [c2 E2]. rewrite E2. eexists. reflexivity. }
+        destruct (map_find key m0) as [old|]; [exact (Hload old H)|].
+        destruct only; [cbn [MpScopeSpec.spec_vact]; exact (Hskip toks es H) | exact (Hload (default_of e) H)].
       + cbn [MpScopeSpec.spec_vact]. destruct (IH (kvs1 ++ [(k, x)]) E' toks es H) as [c2 E2]. rewrite E2. eexists. reflexivity.
   Qed.
 
@@ -487,18 +528,21 @@ Section Programs.
   Proof. reflexivity. Qed.
 
   (* std::map at an element position / as a member / as a mapped value: the body of the object scope *)
-  Lemma map_body ks e : vact_ok e -> forall v toks r, dok (SMap ks e) v -> load_tr (SMap ks e) v = (toks, r) -> no_err r ->
+  Lemma map_body m ks e : vact_ok e -> forall i v toks r, dok (SMap m ks e) v -> load_tr (SMap m ks e) i v = (toks, r) -> no_err r ->
     exists c, (match v with
-               | MMap kvs' => child (spec_reqs kvs' (match v with MMap kvs => mk_reqs [REach (mk_vacts (map_acts o ks (vact_prog e) kvs))] | _ => RNil end)) true
+               | MMap kvs' => child (spec_reqs kvs' (match v with
+                                                     | MMap kvs => mk_reqs [REach (mk_vacts (map_acts o (map_only m) ks (default_of e) (vact_prog e) (map_m0 m i) kvs))]
+                                                     | _ => RNil end)) true
                | _ => not_container o v
                end) = (toks, None, c).
   Proof.
-    intros He v toks r HD H Hn. cbn [MpLoadModel.load_tr] in H.
+    intros He i v toks r HD H Hn. cbn [MpLoadModel.load_tr] in H.
     destruct v; try (destruct (no_container_spec _ _ _ H Hn) as [E _]; rewrite E; eexists; reflexivity).
-    destruct (entries_tr o ks e (load_tr e) l) as [[t es] err] eqn:Et. destruct err as [err|].
+    fold (map_m0 m i) in H. fold (map_only m) in H.
+    destruct (entries_tr o (map_only m) ks e (load_tr e) (map_m0 m i) l) as [[t es] err] eqn:Et. destruct err as [err|].
     { injection H as _ <-. destruct Hn. }
     injection H as <- _.
-    destruct (entries_loop ks e l He (dok_map _ _ _ HD) l [] eq_refl t es Et) as [c E].
+    destruct (entries_loop (map_only m) ks e (map_m0 m i) l He (dok_map _ _ _ _ HD) l [] eq_refl t es Et) as [c E].
     cbn [mk_reqs]. rewrite spec_reqs_cons, spec_req_each, E. cbn [MpScopeSpec.spec_reqs child]. eexists. rewrite app_nil_r. reflexivity.
   Qed.
 
@@ -509,35 +553,34 @@ Section Programs.
     apply shape_ind'.
     - (* one typed read *)
       intros s Hs. apply Hthird.
-      assert (Ht : exists t, target_of s = Some t /\ forall v, load_tr s v = scalar_tr narrow widen o s t v
-                                     /\ elem_prog s v = [AGet t] /\ forall q ov, member_prog s q ov = [RGet q t] /\ absent_toks s = [KFalse])
-        by (destruct s; try destruct Hs; eexists; (split; [reflexivity|]); intros v; repeat split).
+      assert (Ht : exists t, target_of s = Some t /\ forall i v, load_tr s i v = scalar_tr narrow widen o s t v
+                                     /\ elem_prog s i v = [AGet t] /\ forall q ov, member_prog s i q ov = [RGet q t] /\ absent_toks s = [KFalse])
+        by (destruct s; try destruct Hs; eexists; (split; [reflexivity|]); intros i v; repeat split).
       destruct Ht as [t [Ht Hall]]. split.
-      + intros v vs toks r _ H Hn. destruct (Hall v) as [Hl [Hp _]]. rewrite Hl in H. rewrite Hp.
+      + intros i v vs toks r _ H Hn. destruct (Hall i v) as [Hl [Hp _]]. rewrite Hl in H. rewrite Hp.
         cbn [mk_areqs]. rewrite spec_areqs_cons. cbn [MpScopeSpec.spec_areq MpScopeSpec.spec_areqs].
         unfold scalar_tr in H. destruct (typed_spec narrow widen o t v); injection H as <- <-;
           try (exfalso; exact Hn); cbn [of_tres]; eexists; reflexivity.
-      + intros q kvs toks r _ H Hn. destruct (Hall MNil) as [_ [_ Hm]]. destruct (Hm q (lookup (key_of_q q) kvs)) as [Hp Ha].
+      + intros i q kvs toks r _ H Hn. destruct (Hall i MNil) as [_ [_ Hm]]. destruct (Hm q (lookup (key_of_q q) kvs)) as [Hp Ha].
         rewrite Hp. cbn [mk_reqs]. rewrite spec_reqs_cons. cbn [MpScopeSpec.spec_req MpScopeSpec.spec_reqs].
         unfold member_tr in H. destruct (lookup (key_of_q q) kvs) as [v|].
-        * destruct (Hall v) as [Hl _]. rewrite Hl in H. unfold scalar_tr in H.
+        * destruct (Hall i v) as [Hl _]. rewrite Hl in H. unfold scalar_tr in H.
           destruct (typed_spec narrow widen o t v); injection H as <- <-; try (exfalso; exact Hn); cbn [of_tres]; eexists; reflexivity.
         * rewrite Ha in H. injection H as <- _. eexists. reflexivity.
     - (* byte container *)
       apply Hthird. split.
-      + intros v vs toks r _ H Hn. cbn [MpLoadModel.load_tr] in H.
+      + intros i v vs toks r _ H Hn. cbn [MpLoadModel.load_tr] in H.
         destruct (is_bin v) eqn:Hb.
         * destruct v; try discriminate Hb. injection H as <- _. cbn [MpLoadModel.elem_prog mk_areqs]. rewrite spec_areqs_cons.
           cbn [MpScopeSpec.spec_areq MpScopeSpec.spec_areqs].
           unfold bytes_child. rewrite Nat.leb_refl, firstn_all. eexists. rewrite app_nil_r. reflexivity.
-        * assert (Hp : elem_prog SBytes v = [ABin 0; AArr (arr_prog u8_prog v)]) by (destruct v; try discriminate Hb; reflexivity).
-          assert (Hl : exists t r0, vec_tr o (SInt IU8) (scalar_tr narrow widen o (SInt IU8) (TgInt (mkIty false 8))) (fun items => TBytes (map byte_of items)) v = (t, r0)
-                                    /\ toks = KNone :: t /\ r = r0).
+        * assert (Hp : elem_prog SBytes i v = [ABin 0; AArr (arr_prog u8_prog (TInt IU8 0) [] v)]) by (destruct v; try discriminate Hb; reflexivity).
+          assert (Hl : exists t r0, u8_tr v = (t, r0) /\ toks = KNone :: t /\ r = r0).
           { destruct v; try discriminate Hb;
               match type of H with (let (t, r) := ?X in _) = _ => destruct X as [t r0] eqn:Ev end;
               injection H as <- <-; eexists _, _; (split; [reflexivity | split; reflexivity]). }
           destruct Hl as [t [r0 [Ev [-> ->]]]]. rewrite Hp. exact (bytes_fallback_elem v vs t r0 Hb Ev Hn).
-      + intros q kvs toks r _ H Hn. unfold member_tr in H.
+      + intros i q kvs toks r _ H Hn. unfold member_tr in H.
         destruct (lookup (key_of_q q) kvs) as [v|] eqn:El.
         2:{ injection H as <- _. cbn [MpLoadModel.member_prog absent_toks mk_reqs]. rewrite !spec_reqs_cons.
             rewrite spec_req_bin_other by (rewrite El; reflexivity).
@@ -547,83 +590,82 @@ Section Programs.
         * destruct v; try discriminate Hb. injection H as <- _. cbn [MpLoadModel.member_prog mk_reqs]. rewrite spec_reqs_cons.
           cbn [MpScopeSpec.spec_req MpScopeSpec.spec_reqs]. rewrite El.
           unfold bytes_child. rewrite Nat.leb_refl, firstn_all. eexists. rewrite app_nil_r. reflexivity.
-        * assert (Hp : member_prog SBytes q (Some v) = [RBin q 0; RArr q (arr_prog u8_prog v)]) by (destruct v; try discriminate Hb; reflexivity).
-          assert (Hl : exists t r0, vec_tr o (SInt IU8) (scalar_tr narrow widen o (SInt IU8) (TgInt (mkIty false 8))) (fun items => TBytes (map byte_of items)) v = (t, r0)
-                                    /\ toks = KNone :: t /\ r = r0).
+        * assert (Hp : member_prog SBytes i q (Some v) = [RBin q 0; RArr q (arr_prog u8_prog (TInt IU8 0) [] v)]) by (destruct v; try discriminate Hb; reflexivity).
+          assert (Hl : exists t r0, u8_tr v = (t, r0) /\ toks = KNone :: t /\ r = r0).
           { destruct v; try discriminate Hb;
               match type of H with (let (t, r) := ?X in _) = _ => destruct X as [t r0] eqn:Ev end;
               injection H as <- <-; eexists _, _; (split; [reflexivity | split; reflexivity]). }
           destruct Hl as [t [r0 [Ev [-> ->]]]]. rewrite Hp. exact (bytes_fallback_member q kvs v t r0 El Hb Ev Hn).
     - (* sequence container *)
       intros e [IHe _]. apply Hthird. split.
-      + intros v vs toks r HD H Hn. rewrite elem_prog_vec. cbn [MpLoadModel.load_tr] in H.
-        destruct (vec_elem e _ (elem_prog e) _ (dok e) v vs toks r IHe (fun l El => dok_vec e l (eq_ind _ (dok (SVec e)) HD _ El)) H Hn) as [c E].
+      + intros i v vs toks r HD H Hn. rewrite elem_prog_vec. cbn [MpLoadModel.load_tr] in H. rewrite vec_is_arr in H.
+        destruct (vec_elem e _ (elem_prog e) _ _ (dok e) (arr_items i) v vs toks r IHe (fun l El => dok_vec e l (eq_ind _ (dok (SVec e)) HD _ El)) H Hn) as [c E].
         rewrite (one_areq _ _ _ _ E). eexists. rewrite app_nil_r. reflexivity.
-      + intros q kvs toks r HD H Hn. unfold member_tr in H. rewrite member_prog_vec. cbn [MpLoadModel.load_tr absent_toks] in H.
-        destruct (vec_member e _ (elem_prog e) TArr (dok e) q kvs toks r IHe (fun l El => dok_vec e l (HD _ El))) as [c E]; [|exact Hn|].
+      + intros i q kvs toks r HD H Hn. unfold member_tr in H. rewrite member_prog_vec. cbn [MpLoadModel.load_tr absent_toks] in H.
+        destruct (vec_member e _ (elem_prog e) (fun _ r => fill e r) TArr (dok e) (arr_items i) q kvs toks r IHe (fun l El => dok_vec e l (HD _ El))) as [c E]; [|exact Hn|].
         { destruct (lookup (key_of_q q) kvs); exact H. }
         cbn [mk_reqs]. rewrite spec_reqs_cons, E. cbn [MpScopeSpec.spec_reqs]. eexists. rewrite app_nil_r. reflexivity.
     - (* class *)
       intros ms Hms. apply Hthird.
       assert (Hm : Forall (fun m => member_ok (snd m)) ms) by (eapply Forall_impl; [|exact Hms]; intros m [_ [Hmm _]]; exact Hmm).
-      assert (Hbody : forall v toks r, dok (SClass ms) v -> load_tr (SClass ms) v = (toks, r) -> no_err r ->
+      assert (Hbody : forall i v toks r, dok (SClass ms) v -> load_tr (SClass ms) i v = (toks, r) -> no_err r ->
                 exists c, (match v with
-                           | MMap kvs' => child (spec_reqs kvs' (match v with MMap kvs => mk_reqs (members_prog member_prog kvs ms) | _ => RNil end)) true
+                           | MMap kvs' => child (spec_reqs kvs' (match v with MMap kvs => mk_reqs (members_prog member_prog kvs (obj_fields i) ms) | _ => RNil end)) true
                            | _ => not_container o v
                            end) = (toks, None, c)).
-      { intros v toks r HD H Hn. cbn [MpLoadModel.load_tr] in H.
+      { intros i v toks r HD H Hn. cbn [MpLoadModel.load_tr] in H.
         destruct v; try (destruct (no_container_spec _ _ _ H Hn) as [E _]; rewrite E; eexists; reflexivity).
-        destruct (members_tr load_tr l ms) as [[t fields] err] eqn:Et. destruct err as [err|].
+        destruct (members_tr load_tr l (obj_fields i) ms) as [[t fields] err] eqn:Et. destruct err as [err|].
         { injection H as _ <-. destruct Hn. }
-        injection H as <- _. destruct (members_loop l ms Hm (dok_class ms l HD) t fields Et) as [c E]. rewrite E. eexists. reflexivity. }
+        injection H as <- _. destruct (members_loop l ms Hm (dok_class ms l HD) (obj_fields i) t fields Et) as [c E]. rewrite E. eexists. reflexivity. }
       split.
-      + intros v vs toks r HD H Hn. rewrite ?elem_prog_class, ?elem_prog_map. cbn [mk_areqs]. rewrite spec_areqs_cons, spec_areq_obj.
-        destruct (Hbody v toks r HD H Hn) as [c E]. cbn [mk_reqs] in E |- *. destruct v; rewrite E; cbn [MpScopeSpec.spec_areqs]; eexists; rewrite app_nil_r; reflexivity.
-      + intros q kvs toks r HD H Hn. unfold member_tr in H. rewrite ?member_prog_class, ?member_prog_map. cbn [mk_reqs]. rewrite spec_reqs_cons, spec_req_obj.
+      + intros i v vs toks r HD H Hn. rewrite ?elem_prog_class, ?elem_prog_map. cbn [mk_areqs]. rewrite spec_areqs_cons, spec_areq_obj.
+        destruct (Hbody i v toks r HD H Hn) as [c E]. cbn [mk_reqs] in E |- *. destruct v; rewrite E; cbn [MpScopeSpec.spec_areqs]; eexists; rewrite app_nil_r; reflexivity.
+      + intros i q kvs toks r HD H Hn. unfold member_tr in H. rewrite ?member_prog_class, ?member_prog_map. cbn [mk_reqs]. rewrite spec_reqs_cons, spec_req_obj.
         destruct (lookup (key_of_q q) kvs) as [v|].
-        * destruct (Hbody v toks r (HD v eq_refl) H Hn) as [c E]. cbn [mk_reqs] in E |- *. destruct v; rewrite E; cbn [MpScopeSpec.spec_reqs]; eexists; rewrite app_nil_r; reflexivity.
+        * destruct (Hbody i v toks r (HD v eq_refl) H Hn) as [c E]. cbn [mk_reqs] in E |- *. destruct v; rewrite E; cbn [MpScopeSpec.spec_reqs]; eexists; rewrite app_nil_r; reflexivity.
         * injection H as <- _. cbn [MpScopeSpec.spec_reqs absent_toks]. eexists. reflexivity.
     - (* std::map *)
-      intros ks e [_ [_ IHv]]. apply Hthird. pose proof (map_body ks e IHv) as Hbody. split.
-      + intros v vs toks r HD H Hn. rewrite ?elem_prog_class, ?elem_prog_map. cbn [mk_areqs]. rewrite spec_areqs_cons, spec_areq_obj.
-        destruct (Hbody v toks r HD H Hn) as [c E]. cbn [mk_reqs] in E |- *. destruct v; rewrite E; cbn [MpScopeSpec.spec_areqs]; eexists; rewrite app_nil_r; reflexivity.
-      + intros q kvs toks r HD H Hn. unfold member_tr in H. rewrite ?member_prog_class, ?member_prog_map. cbn [mk_reqs]. rewrite spec_reqs_cons, spec_req_obj.
+      intros m ks e [_ [_ IHv]]. apply Hthird. pose proof (map_body m ks e IHv) as Hbody. split.
+      + intros i v vs toks r HD H Hn. rewrite ?elem_prog_class, ?elem_prog_map. cbn [mk_areqs]. rewrite spec_areqs_cons, spec_areq_obj.
+        destruct (Hbody i v toks r HD H Hn) as [c E]. cbn [mk_reqs] in E |- *. destruct v; rewrite E; cbn [MpScopeSpec.spec_areqs]; eexists; rewrite app_nil_r; reflexivity.
+      + intros i q kvs toks r HD H Hn. unfold member_tr in H. rewrite ?member_prog_class, ?member_prog_map. cbn [mk_reqs]. rewrite spec_reqs_cons, spec_req_obj.
         destruct (lookup (key_of_q q) kvs) as [v|].
-        * destruct (Hbody v toks r (HD v eq_refl) H Hn) as [c E]. cbn [mk_reqs] in E |- *. destruct v; rewrite E; cbn [MpScopeSpec.spec_reqs]; eexists; rewrite app_nil_r; reflexivity.
+        * destruct (Hbody i v toks r (HD v eq_refl) H Hn) as [c E]. cbn [mk_reqs] in E |- *. destruct v; rewrite E; cbn [MpScopeSpec.spec_reqs]; eexists; rewrite app_nil_r; reflexivity.
         * injection H as <- _. cbn [MpScopeSpec.spec_reqs absent_toks]. eexists. reflexivity.
     - (* fixed-size array *)
       intros n e [IHe _]. apply Hthird. split.
-      + intros v vs toks r HD H Hn. rewrite elem_prog_arr. apply arr_as_vec in H; [|exact Hn].
-        destruct (vec_elem e _ (elem_prog e) _ (dok e) v vs toks r IHe (fun l El => dok_arr n e l (eq_ind _ (dok (SArr n e)) HD _ El)) H Hn) as [c E].
+      + intros i v vs toks r HD H Hn. rewrite elem_prog_arr. apply arr_as_vec in H; [|exact Hn].
+        destruct (vec_elem e _ (elem_prog e) _ _ (dok e) (arr_items i) v vs toks r IHe (fun l El => dok_arr n e l (eq_ind _ (dok (SArr n e)) HD _ El)) H Hn) as [c E].
         rewrite (one_areq _ _ _ _ E). eexists. rewrite app_nil_r. reflexivity.
-      + intros q kvs toks r HD H Hn. unfold member_tr in H. rewrite member_prog_arr.
-        destruct (vec_member e _ (elem_prog e) TArr (dok e) q kvs toks r IHe (fun l El => dok_arr n e l (HD _ El))) as [c E]; [|exact Hn|].
-        { destruct (lookup (key_of_q q) kvs); [exact (arr_as_vec n e _ toks r H Hn) | exact H]. }
+      + intros i q kvs toks r HD H Hn. unfold member_tr in H. rewrite member_prog_arr.
+        destruct (vec_member e _ (elem_prog e) keep TArr (dok e) (arr_items i) q kvs toks r IHe (fun l El => dok_arr n e l (HD _ El))) as [c E]; [|exact Hn|].
+        { destruct (lookup (key_of_q q) kvs); [exact (arr_as_vec n e i _ toks r H Hn) | exact H]. }
         cbn [mk_reqs]. rewrite spec_reqs_cons, E. cbn [MpScopeSpec.spec_reqs]. eexists. rewrite app_nil_r. reflexivity.
     - (* std::vector<bool> *)
       apply Hthird. split.
-      + intros v vs toks r _ H Hn. rewrite elem_prog_vb. destruct (vb_as_vec v toks r H Hn) as [r' [H' Hn']].
-        destruct (vec_elem SBool _ bool_prog _ any v vs toks r' bool_elem (fun l _ => any_all l) H' Hn') as [c E].
-        rewrite (one_areq _ _ _ _ E). eexists. rewrite app_nil_r. reflexivity.
-      + intros q kvs toks r _ H Hn. unfold member_tr in H. rewrite member_prog_vb.
+      + intros i v vs toks r _ H Hn. rewrite elem_prog_vb. destruct (vb_as_vec i v toks r H Hn) as [r' [H' Hn']].
+        destruct (vec_elem SBool _ bool_prog _ _ any [] v vs toks r' bool_elem (fun l _ => any_all l) H' Hn') as [c E].
+        cbn [default_of] in E. rewrite (one_areq _ _ _ _ E). eexists. rewrite app_nil_r. reflexivity.
+      + intros i q kvs toks r _ H Hn. unfold member_tr in H. rewrite member_prog_vb.
         assert (Hv : exists r', (match lookup (key_of_q q) kvs with
-                                 | Some x => vec_tr o SBool (scalar_tr narrow widen o SBool (TgInt (mkIty false 1))) TArr x
+                                 | Some x => arr_tr SBool (scalar_ld narrow widen o SBool (TgInt (mkIty false 1))) (fun _ r => fill SBool r) TArr [] x
                                  | None => ([KNone], LNot) end) = (toks, r') /\ no_err r').
-        { destruct (lookup (key_of_q q) kvs) as [x|]; [exact (vb_as_vec x toks r H Hn) | exists r; split; [exact H | exact Hn]]. }
+        { destruct (lookup (key_of_q q) kvs) as [x|]; [exact (vb_as_vec i x toks r H Hn) | exists r; split; [exact H | exact Hn]]. }
         destruct Hv as [r' [H' Hn']].
-        destruct (vec_member SBool _ bool_prog TArr any q kvs toks r' bool_elem (fun l _ => any_all l) H' Hn') as [c E].
-        cbn [mk_reqs]. rewrite spec_reqs_cons, E. cbn [MpScopeSpec.spec_reqs]. eexists. rewrite app_nil_r. reflexivity.
+        destruct (vec_member SBool _ bool_prog _ TArr any [] q kvs toks r' bool_elem (fun l _ => any_all l) H' Hn') as [c E].
+        cbn [default_of] in E. cbn [mk_reqs]. rewrite spec_reqs_cons, E. cbn [MpScopeSpec.spec_reqs]. eexists. rewrite app_nil_r. reflexivity.
     - (* std::tuple *)
       intros ss Hss. apply Hthird.
       assert (He : Forall elem_ok ss) by (eapply Forall_impl; [|exact Hss]; intros s0 [H0 _]; exact H0).
       pose proof (tuple_body ss He) as Hbody. split.
-      + intros v vs toks r HD H Hn. rewrite elem_prog_tuple. cbn [mk_areqs]. rewrite spec_areqs_cons, spec_areq_arr.
-        destruct (Hbody v toks r HD H Hn) as [c E].
+      + intros i v vs toks r HD H Hn. rewrite elem_prog_tuple. cbn [mk_areqs]. rewrite spec_areqs_cons, spec_areq_arr.
+        destruct (Hbody i v toks r HD H Hn) as [c E].
         destruct v; try (rewrite E; cbn [MpScopeSpec.spec_areqs]; eexists; rewrite app_nil_r; reflexivity).
         destruct (spec_areqs l _) as [r' lft]. rewrite E. cbn [MpScopeSpec.spec_areqs]. eexists. rewrite app_nil_r. reflexivity.
-      + intros q kvs toks r HD H Hn. unfold member_tr in H. rewrite member_prog_tuple. cbn [mk_reqs]. rewrite spec_reqs_cons, spec_req_arr.
+      + intros i q kvs toks r HD H Hn. unfold member_tr in H. rewrite member_prog_tuple. cbn [mk_reqs]. rewrite spec_reqs_cons, spec_req_arr.
         destruct (lookup (key_of_q q) kvs) as [v|].
-        * destruct (Hbody v toks r (HD v eq_refl) H Hn) as [c E].
+        * destruct (Hbody i v toks r (HD v eq_refl) H Hn) as [c E].
           destruct v; rewrite E; cbn [MpScopeSpec.spec_reqs]; eexists; rewrite app_nil_r; reflexivity.
         * injection H as <- _. cbn [MpScopeSpec.spec_reqs absent_toks]. eexists. reflexivity.
   Qed.
@@ -662,16 +704,87 @@ Qed.
 
 Fixpoint map_shape (ks : kshape) (e : shape) (l : list (tv * tv)) : bool :=
   match l with [] => true | (k, x) :: t => key_has k ks && has_shape x e && map_shape ks e t end.
-Lemma has_shape_map l ks e : has_shape (TObj l) (SMap ks e) = map_shape ks e l && pairs_sorted l.
+Lemma has_shape_map l m ks e : has_shape (TObj l) (SMap m ks e) = map_shape ks e l && pairs_sorted l.
 Proof.
   cbn [has_shape]. f_equal. induction l as [|[k x] t IH]; [reflexivity|]. cbn [map_shape]. rewrite <- IH. reflexivity.
 Qed.
 
-Lemma map_of_sorted l : pairs_sorted l = true -> map_of l = l.
+(* ---------- std::less on the keys: a strict order ---------- *)
+Lemma bytes_ltb_asym : forall a b, bytes_ltb a b = true -> bytes_ltb b a = false.
 Proof.
-  induction l as [|[k x] t IH]; intros H; [reflexivity|]. cbn [pairs_sorted] in H. apply andb_true_iff in H. destruct H as [H1 H2].
-  unfold map_of in *. cbn [fold_right fst snd]. rewrite (IH H2). destruct t as [|[k' x'] t']; [reflexivity|].
-  cbn [map_insert]. rewrite H1. reflexivity.
+  induction a as [|x a IH]; intros [|y b] H; try reflexivity; try discriminate H. cbn [bytes_ltb] in *.
+  apply orb_true_iff in H. destruct H as [H | H].
+  - apply N.ltb_lt in H. replace (y <? x) with false by (symmetry; apply N.ltb_ge; lia). replace (y =? x) with false by (symmetry; apply N.eqb_neq; lia). reflexivity.
+  - apply andb_true_iff in H. destruct H as [H1 H2]. apply N.eqb_eq in H1. subst y. rewrite N.ltb_irrefl, N.eqb_refl. cbn [orb andb]. exact (IH b H2).
+Qed.
+
+Lemma bytes_ltb_trans : forall a b c, bytes_ltb a b = true -> bytes_ltb b c = true -> bytes_ltb a c = true.
+Proof.
+  induction a as [|x a IH]; intros [|y b] [|z c] H1 H2; try reflexivity; try discriminate H1; try discriminate H2. cbn [bytes_ltb] in *.
+  apply orb_true_iff in H1. apply orb_true_iff in H2. apply orb_true_iff.
+  destruct H1 as [H1 | H1]; destruct H2 as [H2 | H2].
+  - left. apply N.ltb_lt in H1, H2. apply N.ltb_lt. lia.
+  - apply andb_true_iff in H2. destruct H2 as [E _]. apply N.eqb_eq in E. subst z. left. exact H1.
+  - apply andb_true_iff in H1. destruct H1 as [E _]. apply N.eqb_eq in E. subst y. left. exact H2.
+  - apply andb_true_iff in H1. apply andb_true_iff in H2. destruct H1 as [E1 L1]. destruct H2 as [E2 L2].
+    apply N.eqb_eq in E1, E2. subst y z. right. rewrite N.eqb_refl. exact (IH b c L1 L2).
+Qed.
+
+Lemma tkey_ltb_asym a b : tkey_ltb a b = true -> tkey_ltb b a = false.
+Proof.
+  destruct a, b; cbn [tkey_ltb]; intros H; try discriminate H; try reflexivity.
+  - apply Z.ltb_lt in H. apply Z.ltb_ge. lia.
+  - exact (bytes_ltb_asym _ _ H).
+Qed.
+
+Lemma tkey_ltb_trans a b c : tkey_ltb a b = true -> tkey_ltb b c = true -> tkey_ltb a c = true.
+Proof.
+  destruct a, b, c; cbn [tkey_ltb]; intros H1 H2; try discriminate H1; try discriminate H2.
+  - apply Z.ltb_lt in H1, H2. apply Z.ltb_lt. lia.
+  - exact (bytes_ltb_trans _ _ _ H1 H2).
+Qed.
+
+Definition all_below (k : tv) (l : list (tv * tv)) : Prop := forall kv, In kv l -> tkey_ltb (fst kv) k = true.
+
+Lemma sorted_below l : forall k x r, pairs_sorted (l ++ (k, x) :: r) = true -> all_below k l.
+Proof.
+  induction l as [|[k0 x0] l IH]; intros k x r H kv Hin; [destruct Hin|].
+  cbn [app pairs_sorted] in H. apply andb_true_iff in H. destruct H as [Hh Ht].
+  pose proof (IH k x r Ht) as Hall.
+  destruct Hin as [<- | Hin]; [|exact (Hall kv Hin)]. cbn [fst].
+  destruct l as [|[k1 x1] l']; cbn [app] in Hh; [exact Hh|].
+  exact (tkey_ltb_trans _ _ _ Hh (Hall (k1, x1) (or_introl eq_refl))).
+Qed.
+
+Lemma sorted_app_l l r : pairs_sorted (l ++ r) = true -> pairs_sorted l = true.
+Proof.
+  induction l as [|[k x] l IH]; intros H; [reflexivity|]. cbn [app pairs_sorted] in *. apply andb_true_iff in H. destruct H as [Hh Ht].
+  rewrite (IH Ht), andb_true_r. destruct l as [|[k1 x1] l']; [reflexivity | exact Hh].
+Qed.
+
+(* a key above all keys of the map is not found, and is appended *)
+Lemma find_above k : forall l, all_below k l -> map_find k l = None.
+Proof.
+  induction l as [|[k' x'] l IH]; intros H; [reflexivity|]. cbn [map_find]. unfold tkey_eqb.
+  pose proof (H (k', x') (or_introl eq_refl)) as Hlt. cbn [fst] in Hlt. rewrite Hlt, andb_false_r.
+  apply IH. intros kv Hin. apply H. right. exact Hin.
+Qed.
+
+Lemma insert_last k x : forall l, all_below k l -> map_insert k x l = l ++ [(k, x)].
+Proof.
+  induction l as [|[k' x'] l IH]; intros H; [reflexivity|]. cbn [map_insert app].
+  pose proof (H (k', x') (or_introl eq_refl)) as Hlt. cbn [fst] in Hlt.
+  rewrite (tkey_ltb_asym _ _ Hlt). rewrite IH by (intros kv Hin; apply H; right; exact Hin). reflexivity.
+Qed.
+
+Lemma put_last k x l : all_below k l -> map_put k x l = l ++ [(k, x)].
+Proof. intros H. unfold map_put. rewrite (find_above k l H). exact (insert_last k x l H). Qed.
+
+Lemma apply_sorted : forall es acc, pairs_sorted (acc ++ es) = true -> map_apply acc es = acc ++ es.
+Proof.
+  induction es as [|[k x] es IH]; intros acc H; [unfold map_apply; cbn [fold_left]; rewrite app_nil_r; reflexivity|].
+  unfold map_apply in *. cbn [fold_left fst snd]. rewrite (put_last k x acc (sorted_below acc k x es H)).
+  rewrite IH by (rewrite <- app_assoc; exact H). rewrite <- app_assoc. reflexivity.
 Qed.
 
 Lemma conv_abs o k ks : key_has k ks = true -> wf_tv k -> exists kk, keyden (abs k) = Some kk /\ conv_key o ks kk = CKey k.
@@ -681,6 +794,11 @@ Proof.
     exists (KInt z). split; [reflexivity|]. cbn [conv_key]. rewrite Hw. reflexivity.
   - exists (KStr s). split; reflexivity.
 Qed.
+
+Lemma clean_maps_class ms : clean_maps (SClass ms) = forallb (fun m => clean_maps (snd m)) ms.
+Proof. induction ms as [|[name s'] ms IH]; [reflexivity|]. cbn [forallb snd]. rewrite <- IH. reflexivity. Qed.
+Lemma clean_maps_tuple ss : clean_maps (STuple ss) = forallb clean_maps ss.
+Proof. induction ss as [|s' ss IH]; [reflexivity|]. cbn [forallb]. rewrite <- IH. reflexivity. Qed.
 
 Definition absp (kv : tv * tv) : mpv * mpv := (abs (fst kv), abs (snd kv)).
 
@@ -693,20 +811,23 @@ Section RoundTrip.
   Variable o : opts.
   Notation load_tr := (load_tr narrow widen o).
 
+  (* whatever the target holds (i), when every std::map of the shape is loaded with Clean *)
   Definition rt (v : tv) : Prop :=
-    forall s, has_shape v s = true -> wf_tv v -> doc_ok (abs v) = true -> exists toks, load_tr s (abs v) = (toks, LOk v).
+    forall s i, has_shape v s = true -> clean_maps s = true -> wf_tv v -> doc_ok (abs v) = true ->
+    exists toks, load_tr s i (abs v) = (toks, LOk v).
 
   Lemma in_range_kind k z : ikind_range k z = true -> in_range (ity_of_kind k) z = true.
   Proof. destruct k; intros H; exact H. Qed.
 
-  Lemma rt_elems e : forall l, Forall rt l -> all_shape e l = true -> wf_list l -> Forall (fun v => doc_ok v = true) (map abs l) ->
-    exists t, elems_tr e (load_tr e) (map abs l) = (t, l, None).
+  Lemma rt_elems e after : (forall i x, after i (LOk x) = x) -> clean_maps e = true ->
+    forall l inits, Forall rt l -> all_shape e l = true -> wf_list l -> Forall (fun v => doc_ok v = true) (map abs l) ->
+    exists t, elems_tr e (load_tr e) after inits (map abs l) = (t, l, None).
   Proof.
-    induction l as [|x l IH]; intros HF Hs Hw Hd; cbn [map elems_tr].
+    intros Ha Hc. induction l as [|x l IH]; intros inits HF Hs Hw Hd; cbn [map elems_tr].
     - eexists. reflexivity.
     - inversion HF as [|? ? Hx Hl]; subst. cbn [all_shape] in Hs. apply andb_true_iff in Hs. destruct Hs as [Hsx Hsl].
       destruct Hw as [Hwx Hwl]. cbn [map] in Hd. inversion Hd as [|? ? Hdx Hdl]; subst.
-      destruct (Hx e Hsx Hwx Hdx) as [tx Ex]. rewrite Ex. destruct (IH Hl Hsl Hwl Hdl) as [t Et]. rewrite Et.
+      destruct (Hx e (hd (default_of e) inits) Hsx Hc Hwx Hdx) as [tx Ex]. rewrite Ex. destruct (IH (tl inits) Hl Hsl Hwl Hdl) as [t Et]. rewrite Et, Ha.
       eexists. reflexivity.
   Qed.
 
@@ -720,47 +841,53 @@ Section RoundTrip.
     change (KStr k) with (key_of_q (QStr k)). rewrite (lookup_skip _ _ _ Hno). apply lookup_hit. exact Hm.
   Qed.
 
-  Lemma rt_members : forall post ms pre,
-    Forall (fun kv => rt (fst kv) /\ rt (snd kv)) post -> class_shape post ms = true -> wf_pairs post ->
+  Lemma rt_members : forall post ms pre inits,
+    Forall (fun kv => rt (fst kv) /\ rt (snd kv)) post -> class_shape post ms = true -> forallb (fun m => clean_maps (snd m)) ms = true ->
+    wf_pairs post ->
     keys_distinct (keys_of (map absp (pre ++ post))) = true ->
     Forall (fun kv => doc_ok (snd kv) = true) (map absp post) ->
-    exists t, members_tr load_tr (map absp (pre ++ post)) ms = (t, post, None).
+    exists t, members_tr load_tr (map absp (pre ++ post)) inits ms = (t, post, None).
   Proof.
-    induction post as [|[k x] post IH]; intros ms pre HF Hs Hw Hd Hdv.
+    induction post as [|[k x] post IH]; intros ms pre inits HF Hs Hc Hw Hd Hdv.
     - destruct ms; [|discriminate Hs]. eexists. reflexivity.
     - destruct ms as [|[name s'] ms']; [discriminate Hs|]. cbn [class_shape] in Hs.
       apply andb_true_iff in Hs. destruct Hs as [Hs Hsl]. apply andb_true_iff in Hs. destruct Hs as [Hk Hsx].
+      cbn [forallb snd] in Hc. apply andb_true_iff in Hc. destruct Hc as [Hcx Hcl].
       destruct k; try discriminate Hk. apply bytes_eqb_eq in Hk. subst name.
       inversion HF as [|? ? [_ Hx] Hl]; subst. cbn [fst snd] in Hx. destruct Hw as [_ [Hwx Hwl]].
       cbn [map] in Hdv. inversion Hdv as [|? ? Hdx Hdl]; subst. unfold absp at 1 in Hdx. cbn [snd] in Hdx.
       cbn [members_tr]. rewrite (lookup_member pre s x post Hd).
-      destruct (Hx s' Hsx Hwx Hdx) as [tx Ex]. rewrite Ex.
+      destruct (Hx s' (match inits with (_, x0) :: _ => x0 | [] => default_of s' end) Hsx Hcx Hwx Hdx) as [tx Ex]. rewrite Ex.
       replace (pre ++ (TStr s, x) :: post) with ((pre ++ [(TStr s, x)]) ++ post) in * by (rewrite <- app_assoc; reflexivity).
-      destruct (IH ms' (pre ++ [(TStr s, x)]) Hl Hsl Hwl Hd Hdl) as [t Et]. rewrite Et. eexists. reflexivity.
+      destruct (IH ms' (pre ++ [(TStr s, x)]) (tl inits) Hl Hsl Hcl Hwl Hd Hdl) as [t Et]. rewrite Et. eexists. reflexivity.
   Qed.
 
-  Lemma rt_entries ks e : forall l, Forall (fun kv => rt (fst kv) /\ rt (snd kv)) l -> map_shape ks e l = true -> wf_pairs l ->
+  (* Clean: the map starts empty, every entry is new *)
+  Lemma rt_entries ks e : clean_maps e = true ->
+    forall l, Forall (fun kv => rt (fst kv) /\ rt (snd kv)) l -> map_shape ks e l = true -> wf_pairs l ->
     Forall (fun kv => doc_ok (snd kv) = true) (map absp l) ->
-    exists t, entries_tr o ks e (load_tr e) (map absp l) = (t, l, None).
+    exists t, entries_tr o false ks e (load_tr e) [] (map absp l) = (t, l, None).
   Proof.
-    induction l as [|[k x] l IH]; intros HF Hs Hw Hd; cbn [map entries_tr].
+    intros Hc. induction l as [|[k x] l IH]; intros HF Hs Hw Hd; cbn [map entries_tr].
     - eexists. reflexivity.
     - inversion HF as [|? ? [_ Hx] Hl]; subst. cbn [fst snd] in Hx.
       cbn [map_shape] in Hs. apply andb_true_iff in Hs. destruct Hs as [Hs Hsl]. apply andb_true_iff in Hs. destruct Hs as [Hk Hsx].
       destruct Hw as [Hwk [Hwx Hwl]]. cbn [map] in Hd. inversion Hd as [|? ? Hdx Hdl]; subst. unfold absp at 1 in Hdx. cbn [snd] in Hdx.
-      unfold absp at 1. cbn [fst snd]. destruct (conv_abs o k ks Hk Hwk) as [kk [Ek Ec]]. rewrite Ek, Ec.
-      destruct (Hx e Hsx Hwx Hdx) as [tx Ex]. rewrite Ex. destruct (IH Hl Hsl Hwl Hdl) as [t Et]. rewrite Et.
+      unfold absp at 1. cbn [fst snd]. destruct (conv_abs o k ks Hk Hwk) as [kk [Ek Ec]]. rewrite Ek, Ec. cbn [map_find].
+      destruct (Hx e (default_of e) Hsx Hc Hwx Hdx) as [tx Ex]. rewrite Ex. destruct (IH Hl Hsl Hwl Hdl) as [t Et]. rewrite Et.
       eexists. reflexivity.
   Qed.
 
-  Lemma rt_comps : forall l ss, Forall rt l -> tuple_shape l ss = true -> wf_list l -> Forall (fun v => doc_ok v = true) (map abs l) ->
-    exists t, comps_tr o load_tr ss (map abs l) = (t, l, None).
+  Lemma rt_comps : forall l ss inits, Forall rt l -> tuple_shape l ss = true -> forallb clean_maps ss = true -> wf_list l ->
+    Forall (fun v => doc_ok v = true) (map abs l) ->
+    exists t, comps_tr o load_tr ss inits (map abs l) = (t, l, None).
   Proof.
-    induction l as [|x l IH]; intros [|s' ss'] HF Hs Hw Hd; try discriminate Hs; cbn [map comps_tr].
+    induction l as [|x l IH]; intros [|s' ss'] inits HF Hs Hc Hw Hd; try discriminate Hs; cbn [map comps_tr].
     - eexists. reflexivity.
     - inversion HF as [|? ? Hx Hl]; subst. cbn [tuple_shape] in Hs. apply andb_true_iff in Hs. destruct Hs as [Hsx Hsl].
+      cbn [forallb] in Hc. apply andb_true_iff in Hc. destruct Hc as [Hcx Hcl].
       destruct Hw as [Hwx Hwl]. cbn [map] in Hd. inversion Hd as [|? ? Hdx Hdl]; subst.
-      destruct (Hx s' Hsx Hwx Hdx) as [tx Ex]. rewrite Ex. destruct (IH ss' Hl Hsl Hwl Hdl) as [t Et]. rewrite Et.
+      destruct (Hx s' (hd (default_of s') inits) Hsx Hcx Hwx Hdx) as [tx Ex]. rewrite Ex. destruct (IH ss' (tl inits) Hl Hsl Hcl Hwl Hdl) as [t Et]. rewrite Et.
       eexists. reflexivity.
   Qed.
 
@@ -779,40 +906,41 @@ Section RoundTrip.
   Theorem load_save_spec : forall v, rt v.
   Proof.
     apply tv_ind2; unfold rt.
-    - intros [] Hs _ _; try discriminate Hs. eexists. reflexivity.
-    - intros b [] Hs _ _; try discriminate Hs. destruct b; eexists; reflexivity.
-    - intros k z [] Hs Hw _; try discriminate Hs. cbn [wf_tv] in Hw.
+    - intros [] i Hs _ _ _; try discriminate Hs. eexists. reflexivity.
+    - intros b [] i Hs _ _ _; try discriminate Hs. destruct b; eexists; reflexivity.
+    - intros k z [] i Hs _ Hw _; try discriminate Hs. cbn [wf_tv] in Hw.
       assert (k = k0) by (destruct k, k0; try discriminate Hs; reflexivity). subst k0.
       cbn [MpLoadModel.load_tr target_of abs]. unfold scalar_tr. cbn [typed_spec]. rewrite (in_range_kind k z Hw). eexists. reflexivity.
-    - intros b [] Hs _ _; try discriminate Hs. eexists. reflexivity.
-    - intros b [] Hs _ _; try discriminate Hs. eexists. reflexivity.
-    - intros b [] Hs _ _; try discriminate Hs. eexists. reflexivity.
-    - intros b [] Hs _ _; try discriminate Hs. eexists. reflexivity.
-    - intros l HF [] Hs Hw Hd; try discriminate Hs.
-      + rewrite has_shape_arr in Hs. rewrite wf_arr in Hw.
+    - intros b [] i Hs _ _ _; try discriminate Hs. eexists. reflexivity.
+    - intros b [] i Hs _ _ _; try discriminate Hs. eexists. reflexivity.
+    - intros b [] i Hs _ _ _; try discriminate Hs. eexists. reflexivity.
+    - intros b [] i Hs _ _ _; try discriminate Hs. eexists. reflexivity.
+    - intros l HF [] i Hs Hc Hw Hd; try discriminate Hs.
+      + rewrite has_shape_arr in Hs. rewrite wf_arr in Hw. cbn [clean_maps] in Hc.
         apply doc_ok_arr in Hd. cbn [abs MpLoadModel.load_tr]. unfold vec_tr.
-        destruct (rt_elems e l HF Hs Hw Hd) as [t Et]. rewrite Et. eexists. reflexivity.
+        destruct (rt_elems e (fun _ r => fill e r) (fun _ _ => eq_refl) Hc l (arr_items i) HF Hs Hw Hd) as [t Et]. rewrite Et. eexists. reflexivity.
       + rewrite has_shape_arrn in Hs. apply andb_true_iff in Hs. destruct Hs as [Hlen Hs]. apply Nat.eqb_eq in Hlen. rewrite wf_arr in Hw.
-        apply doc_ok_arr in Hd. cbn [abs MpLoadModel.load_tr].
+        cbn [clean_maps] in Hc. apply doc_ok_arr in Hd. cbn [abs MpLoadModel.load_tr].
         replace (firstn n (map abs l)) with (map abs l) by (rewrite <- Hlen, <- (map_length abs l), firstn_all; reflexivity).
-        destruct (rt_elems e l HF Hs Hw Hd) as [t Et]. rewrite Et, map_length, Hlen, Nat.eqb_refl. eexists. reflexivity.
+        destruct (rt_elems e keep (fun _ _ => eq_refl) Hc l (arr_items i) HF Hs Hw Hd) as [t Et]. rewrite Et, map_length, Hlen, Nat.eqb_refl. eexists. reflexivity.
       + rewrite has_shape_vb in Hs. cbn [abs MpLoadModel.load_tr].
         destruct (rt_bools l false Hs) as [t Et]. rewrite Et. eexists. reflexivity.
-      + rewrite has_shape_tuple in Hs. rewrite wf_arr in Hw. apply doc_ok_arr in Hd. cbn [abs MpLoadModel.load_tr].
-        destruct (rt_comps l ss HF Hs Hw Hd) as [t Et]. rewrite Et. eexists. reflexivity.
-    - intros kvs HF [] Hs Hw Hd; try discriminate Hs.
-      + rewrite has_shape_obj in Hs. rewrite wf_obj in Hw.
+      + rewrite has_shape_tuple in Hs. rewrite wf_arr in Hw. rewrite clean_maps_tuple in Hc. apply doc_ok_arr in Hd. cbn [abs MpLoadModel.load_tr].
+        destruct (rt_comps l ss (arr_items i) HF Hs Hc Hw Hd) as [t Et]. rewrite Et. eexists. reflexivity.
+    - intros kvs HF [] i Hs Hc Hw Hd; try discriminate Hs.
+      + rewrite has_shape_obj in Hs. rewrite wf_obj in Hw. rewrite clean_maps_class in Hc.
         rewrite abs_obj in *. destruct (doc_ok_map _ Hd) as [_ [Hdist Hvals]].
         cbn [MpLoadModel.load_tr].
         assert (Hdv : Forall (fun kv => doc_ok (snd kv) = true) (map absp kvs)).
         { apply Forall_forall. intros kv Hin. apply Hvals. apply in_map. exact Hin. }
-        destruct (rt_members kvs ms [] HF Hs Hw Hdist Hdv) as [t Et]. cbn [app] in Et. rewrite Et. eexists. reflexivity.
+        destruct (rt_members kvs ms [] (obj_fields i) HF Hs Hc Hw Hdist Hdv) as [t Et]. cbn [app] in Et. rewrite Et. eexists. reflexivity.
       + rewrite has_shape_map in Hs. apply andb_true_iff in Hs. destruct Hs as [Hs Hsorted]. rewrite wf_obj in Hw.
+        cbn [clean_maps] in Hc. apply andb_true_iff in Hc. destruct Hc as [Hm Hc]. destruct m; try discriminate Hm.
         rewrite abs_obj in *. destruct (doc_ok_map _ Hd) as [_ [_ Hvals]].
         cbn [MpLoadModel.load_tr].
         assert (Hdv : Forall (fun kv => doc_ok (snd kv) = true) (map absp kvs)).
         { apply Forall_forall. intros kv Hin. apply Hvals. apply in_map. exact Hin. }
-        destruct (rt_entries ks e kvs HF Hs Hw Hdv) as [t Et]. rewrite Et, (map_of_sorted kvs Hsorted). eexists. reflexivity.
+        destruct (rt_entries ks e Hc kvs HF Hs Hw Hdv) as [t Et]. rewrite Et, (apply_sorted kvs [] Hsorted). eexists. reflexivity.
   Qed.
 End RoundTrip.
 
@@ -828,161 +956,174 @@ Section Transport.
   Notation elem_prog := (elem_prog o).
 
   (* a class at the root: LoadObject opens the root object scope and runs value.Serialize(scope).
-     The document: any the reference decoder accepts with supported, pairwise different keys *)
-  Theorem load_class_on_model data kvs rest ms toks r :
+     The document: any the reference decoder accepts with supported, pairwise different keys; the target: any content *)
+  Theorem load_class_on_model data kvs rest ms i toks r :
     bytes data -> decode data = Some (MMap kvs, rest) -> doc_ok (MMap kvs) = true ->
-    load_tr (SClass ms) (MMap kvs) = (toks, r) -> no_err r ->
-    run_obj_root narrow widen o data (class_prog ms kvs) = Done toks rest false /\
-    load_obj narrow widen o data (class_prog ms kvs) = MpScopeModel.LOk toks rest.
+    load_tr (SClass ms) i (MMap kvs) = (toks, r) -> no_err r ->
+    run_obj_root narrow widen o data (class_prog ms i kvs) = Done toks rest false /\
+    load_obj narrow widen o data (class_prog ms i kvs) = MpScopeModel.LOk toks rest.
   Proof.
     intros Hb Hd Hok H Hn. cbn [MpLoadModel.load_tr] in H.
-    destruct (members_tr load_tr kvs ms) as [[t fields] err] eqn:Et. destruct err as [err|].
+    destruct (members_tr load_tr kvs (obj_fields i) ms) as [[t fields] err] eqn:Et. destruct err as [err|].
     { injection H as _ <-. destruct Hn. }
     injection H as <- _.
     assert (Hm : Forall (fun m => member_ok narrow widen o (snd m)) ms)
       by (apply Forall_forall; intros m _; apply progs_ok).
-    destruct (members_loop narrow widen o kvs ms Hm (dok_class ms kvs (or_intror Hok)) t fields Et) as [c E].
-    pose proof (obj_root_refines narrow widen o data kvs rest (class_prog ms kvs) t c Hb Hd Hok E) as R.
+    destruct (members_loop narrow widen o kvs ms Hm (dok_class ms kvs (or_intror Hok)) (obj_fields i) t fields Et) as [c E].
+    pose proof (obj_root_refines narrow widen o data kvs rest (class_prog ms i kvs) t c Hb Hd Hok E) as R.
     split; [exact R|]. unfold load_obj. rewrite R. reflexivity.
   Qed.
 
-  (* a std::map at the root *)
-  Theorem load_map_on_model data kvs rest ks e toks r :
+  (* a std::map at the root, in any load mode, into a map with any content *)
+  Theorem load_map_on_model data kvs rest m ks e i toks r :
     bytes data -> decode data = Some (MMap kvs, rest) -> doc_ok (MMap kvs) = true ->
-    load_tr (SMap ks e) (MMap kvs) = (toks, r) -> no_err r ->
-    run_obj_root narrow widen o data (map_prog ks e kvs) = Done toks rest false /\
-    load_obj narrow widen o data (map_prog ks e kvs) = MpScopeModel.LOk toks rest.
+    load_tr (SMap m ks e) i (MMap kvs) = (toks, r) -> no_err r ->
+    run_obj_root narrow widen o data (map_prog m ks e i kvs) = Done toks rest false /\
+    load_obj narrow widen o data (map_prog m ks e i kvs) = MpScopeModel.LOk toks rest.
   Proof.
-    intros Hb Hd Hok H Hn. cbn [MpLoadModel.load_tr] in H.
-    destruct (entries_tr o ks e (load_tr e) kvs) as [[t es] err] eqn:Et. destruct err as [err|].
+    intros Hb Hd Hok H Hn. cbn [MpLoadModel.load_tr] in H. fold (map_m0 m i) in H. fold (map_only m) in H.
+    destruct (entries_tr o (map_only m) ks e (load_tr e) (map_m0 m i) kvs) as [[t es] err] eqn:Et. destruct err as [err|].
     { injection H as _ <-. destruct Hn. }
     injection H as <- _.
-    destruct (entries_loop narrow widen o ks e kvs (proj2 (proj2 (progs_ok narrow widen o e))) Hok kvs [] eq_refl t es Et) as [c E].
-    assert (E' : spec_reqs narrow widen o kvs (map_prog ks e kvs) = (t, None, c && true)).
+    destruct (entries_loop narrow widen o (map_only m) ks e (map_m0 m i) kvs (proj2 (proj2 (progs_ok narrow widen o e))) Hok kvs [] eq_refl t es Et) as [c E].
+    assert (E' : spec_reqs narrow widen o kvs (map_prog m ks e i kvs) = (t, None, c && true)).
     { unfold MpLoadModel.map_prog. cbn [mk_reqs]. rewrite spec_reqs_cons, spec_req_each, E. cbn [MpScopeSpec.spec_reqs]. rewrite app_nil_r. reflexivity. }
-    pose proof (obj_root_refines narrow widen o data kvs rest (map_prog ks e kvs) t _ Hb Hd Hok E') as R.
+    pose proof (obj_root_refines narrow widen o data kvs rest (map_prog m ks e i kvs) t _ Hb Hd Hok E') as R.
     split; [exact R|]. unfold load_obj. rewrite R. reflexivity.
   Qed.
 
-  (* a sequence container at the root *)
-  Theorem load_vec_on_model data vs rest e toks r :
+  (* an array scope at the root whose loop runs to the end *)
+  Lemma arr_on_model data vs rest e after mk i toks r :
     bytes data -> decode data = Some (MArr vs, rest) -> doc_ok (MArr vs) = true ->
-    load_tr (SVec e) (MArr vs) = (toks, r) -> no_err r ->
-    run_arr_root narrow widen o data (vec_prog e vs) = Done toks rest false /\
-    load_arr narrow widen o data (vec_prog e vs) = MpScopeModel.LOk toks rest.
+    arr_tr o e (load_tr e) after mk (arr_items i) (MArr vs) = (toks, r) -> no_err r ->
+    run_arr_root narrow widen o data (vec_prog e i vs) = Done toks rest false /\
+    load_arr narrow widen o data (vec_prog e i vs) = MpScopeModel.LOk toks rest.
   Proof.
-    intros Hb Hd Hok H Hn. cbn [MpLoadModel.load_tr] in H. unfold vec_tr in H.
-    destruct (elems_tr e (load_tr e) vs) as [[t items] err] eqn:Et. destruct err as [err|].
+    intros Hb Hd Hok H Hn. unfold arr_tr in H.
+    destruct (elems_tr e (load_tr e) after (arr_items i) vs) as [[t items] err] eqn:Et. destruct err as [err|].
     { injection H as _ <-. destruct Hn. }
     injection H as <- _.
-    destruct (vec_loop narrow widen o e (load_tr e) (elem_prog e) (dok e) (proj1 (progs_ok narrow widen o e)) vs t items
+    destruct (vec_loop narrow widen o e (load_tr e) (elem_prog e) after (dok e) (proj1 (progs_ok narrow widen o e)) vs (arr_items i) t items
                 (dok_vec e vs (or_intror Hok)) Et) as [c E].
-    pose proof (arr_root_refines narrow widen o data vs rest (vec_prog e vs) t c [] Hb Hd Hok E) as R.
+    pose proof (arr_root_refines narrow widen o data vs rest (vec_prog e i vs) t c [] Hb Hd Hok E) as R.
     split; [exact R|]. unfold load_arr. rewrite R. reflexivity.
   Qed.
 
-  (* a fixed-size array at the root: an error-free load (the counts agree) is the load of a sequence container *)
-  Theorem load_fixed_on_model data vs rest n e toks r :
+  (* a sequence container at the root *)
+  Theorem load_vec_on_model data vs rest e i toks r :
     bytes data -> decode data = Some (MArr vs, rest) -> doc_ok (MArr vs) = true ->
-    load_tr (SArr n e) (MArr vs) = (toks, r) -> no_err r ->
-    run_arr_root narrow widen o data (vec_prog e vs) = Done toks rest false /\
-    load_arr narrow widen o data (vec_prog e vs) = MpScopeModel.LOk toks rest.
+    load_tr (SVec e) i (MArr vs) = (toks, r) -> no_err r ->
+    run_arr_root narrow widen o data (vec_prog e i vs) = Done toks rest false /\
+    load_arr narrow widen o data (vec_prog e i vs) = MpScopeModel.LOk toks rest.
+  Proof. intros Hb Hd Hok H Hn. exact (arr_on_model data vs rest e _ TArr i toks r Hb Hd Hok H Hn). Qed.
+
+  (* a fixed-size array at the root: an error-free load (the counts agree) issues the program of a sequence container *)
+  Theorem load_fixed_on_model data vs rest n e i toks r :
+    bytes data -> decode data = Some (MArr vs, rest) -> doc_ok (MArr vs) = true ->
+    load_tr (SArr n e) i (MArr vs) = (toks, r) -> no_err r ->
+    run_arr_root narrow widen o data (vec_prog e i vs) = Done toks rest false /\
+    load_arr narrow widen o data (vec_prog e i vs) = MpScopeModel.LOk toks rest.
   Proof.
     intros Hb Hd Hok H Hn.
-    exact (load_vec_on_model data vs rest e toks r Hb Hd Hok (arr_as_vec narrow widen o n e (MArr vs) toks r H Hn) Hn).
+    exact (arr_on_model data vs rest e keep TArr i toks r Hb Hd Hok (arr_as_vec narrow widen o n e i (MArr vs) toks r H Hn) Hn).
   Qed.
 
-  (* a std::tuple at the root: a document array shorter than the tuple (Skip policy) is inside: the exhausted array's
-     "no more items" is caught; elements left over are passed by the scope's destructor *)
-  Theorem load_tuple_on_model data vs rest ss toks r :
+  (* a std::tuple at the root: a document array shorter than the tuple (Skip policy) leaves the remaining components as
+     they are; elements left over are passed by the scope's destructor *)
+  Theorem load_tuple_on_model data vs rest ss i toks r :
     bytes data -> decode data = Some (MArr vs, rest) -> doc_ok (MArr vs) = true ->
-    load_tr (STuple ss) (MArr vs) = (toks, r) -> no_err r ->
-    run_arr_root narrow widen o data (tuple_prog o ss vs) = Done toks rest false /\
-    load_arr narrow widen o data (tuple_prog o ss vs) = MpScopeModel.LOk toks rest.
+    load_tr (STuple ss) i (MArr vs) = (toks, r) -> no_err r ->
+    run_arr_root narrow widen o data (tuple_prog o ss i vs) = Done toks rest false /\
+    load_arr narrow widen o data (tuple_prog o ss i vs) = MpScopeModel.LOk toks rest.
   Proof.
     intros Hb Hd Hok H Hn. cbn [MpLoadModel.load_tr] in H.
-    destruct (comps_tr o load_tr ss vs) as [[t items] err] eqn:Et. destruct err as [err|].
+    destruct (comps_tr o load_tr ss (arr_items i) vs) as [[t items] err] eqn:Et. destruct err as [err|].
     { injection H as _ <-. destruct Hn. }
     injection H as <- _.
     assert (He : Forall (elem_ok narrow widen o) ss) by (apply Forall_forall; intros s0 _; apply progs_ok).
-    destruct (comps_loop narrow widen o ss He vs t items (dok_tuple ss vs (or_intror Hok)) Et) as [c [vs' E]].
-    pose proof (arr_root_refines narrow widen o data vs rest (tuple_prog o ss vs) t c vs' Hb Hd Hok E) as R.
+    destruct (comps_loop narrow widen o ss He (arr_items i) vs t items (dok_tuple ss vs (or_intror Hok)) Et) as [c [vs' E]].
+    pose proof (arr_root_refines narrow widen o data vs rest (tuple_prog o ss i vs) t c vs' Hb Hd Hok E) as R.
     split; [exact R|]. unfold load_arr. rewrite R. reflexivity.
   Qed.
 
   (* std::vector<bool> at the root *)
-  Theorem load_vb_on_model data vs rest toks r :
+  Theorem load_vb_on_model data vs rest i toks r :
     bytes data -> decode data = Some (MArr vs, rest) -> doc_ok (MArr vs) = true ->
-    load_tr SVecBool (MArr vs) = (toks, r) -> no_err r ->
-    run_arr_root narrow widen o data (mk_areqs (vec_body bool_prog vs)) = Done toks rest false /\
-    load_arr narrow widen o data (mk_areqs (vec_body bool_prog vs)) = MpScopeModel.LOk toks rest.
+    load_tr SVecBool i (MArr vs) = (toks, r) -> no_err r ->
+    run_arr_root narrow widen o data (mk_areqs (vec_body bool_prog (TBool false) [] vs)) = Done toks rest false /\
+    load_arr narrow widen o data (mk_areqs (vec_body bool_prog (TBool false) [] vs)) = MpScopeModel.LOk toks rest.
   Proof.
-    intros Hb Hd Hok H Hn. destruct (vb_as_vec narrow widen o (MArr vs) toks r H Hn) as [r' [H' Hn']]. unfold vec_tr in H'.
-    destruct (elems_tr SBool _ vs) as [[t items] err] eqn:Et. destruct err as [err|].
+    intros Hb Hd Hok H Hn. destruct (vb_as_vec narrow widen o i (MArr vs) toks r H Hn) as [r' [H' Hn']]. unfold arr_tr in H'.
+    destruct (elems_tr SBool _ _ [] vs) as [[t items] err] eqn:Et. destruct err as [err|].
     { injection H' as _ <-. destruct Hn'. }
     injection H' as <- _.
-    destruct (vec_loop narrow widen o SBool _ bool_prog (any) (bool_elem narrow widen o) vs t items (any_all vs) Et) as [c E].
-    pose proof (arr_root_refines narrow widen o data vs rest (mk_areqs (vec_body bool_prog vs)) t c [] Hb Hd Hok E) as R.
+    destruct (vec_loop narrow widen o SBool _ bool_prog _ any (bool_elem narrow widen o) vs [] t items (any_all vs) Et) as [c E].
+    cbn [default_of] in E.
+    pose proof (arr_root_refines narrow widen o data vs rest (mk_areqs (vec_body bool_prog (TBool false) [] vs)) t c [] Hb Hd Hok E) as R.
     split; [exact R|]. unfold load_arr. rewrite R. reflexivity.
   Qed.
 
-  (* ---------- C01, MsgPack: save then load ---------- *)
-  Theorem load_save v s b : has_shape v s = true -> wf_tv v -> doc_ok (abs v) = true -> save v = Some b ->
+  (* ---------- C01, MsgPack: save then load, into a target with ANY content ---------- *)
+  Theorem load_save_into v s i b : has_shape v s = true -> clean_maps s = true -> wf_tv v -> doc_ok (abs v) = true -> save v = Some b ->
+    load_bytes_into narrow widen o s i b = LOk v.
+  Proof.
+    intros Hs Hc Hw Hd Hsv. unfold load_bytes_into, load_spec. rewrite (save_decodes v b Hw Hsv).
+    destruct (load_save_spec narrow widen o v s i Hs Hc Hw Hd) as [t E]. rewrite E. reflexivity.
+  Qed.
+
+  Theorem load_save v s b : has_shape v s = true -> clean_maps s = true -> wf_tv v -> doc_ok (abs v) = true -> save v = Some b ->
     load_bytes narrow widen o s b = LOk v.
-  Proof.
-    intros Hs Hw Hd Hsv. unfold load_bytes, load_spec. rewrite (save_decodes v b Hw Hsv).
-    destruct (load_save_spec narrow widen o v s Hs Hw Hd) as [t E]. rewrite E. reflexivity.
-  Qed.
+  Proof. intros Hs Hc Hw Hd Hsv. exact (load_save_into v s (default_of s) b Hs Hc Hw Hd Hsv). Qed.
 
-  Theorem load_save_class_on_model kvs ms b :
-    has_shape (TObj kvs) (SClass ms) = true -> wf_tv (TObj kvs) -> doc_ok (abs (TObj kvs)) = true ->
+  Theorem load_save_class_on_model kvs ms i b :
+    has_shape (TObj kvs) (SClass ms) = true -> clean_maps (SClass ms) = true -> wf_tv (TObj kvs) -> doc_ok (abs (TObj kvs)) = true ->
     save (TObj kvs) = Some b -> bytes b ->
-    exists toks, load_tr (SClass ms) (abs (TObj kvs)) = (toks, LOk (TObj kvs)) /\
-      run_obj_root narrow widen o b (class_prog ms (map absp kvs)) = Done toks [] false /\
-      load_obj narrow widen o b (class_prog ms (map absp kvs)) = MpScopeModel.LOk toks [].
+    exists toks, load_tr (SClass ms) i (abs (TObj kvs)) = (toks, LOk (TObj kvs)) /\
+      run_obj_root narrow widen o b (class_prog ms i (map absp kvs)) = Done toks [] false /\
+      load_obj narrow widen o b (class_prog ms i (map absp kvs)) = MpScopeModel.LOk toks [].
   Proof.
-    intros Hs Hw Hd Hsv Hb. destruct (load_save_spec narrow widen o _ _ Hs Hw Hd) as [toks E].
+    intros Hs Hc Hw Hd Hsv Hb. destruct (load_save_spec narrow widen o _ _ i Hs Hc Hw Hd) as [toks E].
     exists toks. split; [exact E|]. rewrite abs_obj in *.
-    exact (load_class_on_model b (map absp kvs) [] ms toks _ Hb (save_decodes _ b Hw Hsv) Hd E I).
+    exact (load_class_on_model b (map absp kvs) [] ms i toks _ Hb (save_decodes _ b Hw Hsv) Hd E I).
   Qed.
 
-  Theorem load_save_map_on_model kvs ks e b :
-    has_shape (TObj kvs) (SMap ks e) = true -> wf_tv (TObj kvs) -> doc_ok (abs (TObj kvs)) = true ->
+  Theorem load_save_map_on_model kvs ks e i b :
+    has_shape (TObj kvs) (SMap MClean ks e) = true -> clean_maps e = true -> wf_tv (TObj kvs) -> doc_ok (abs (TObj kvs)) = true ->
     save (TObj kvs) = Some b -> bytes b ->
-    exists toks, load_tr (SMap ks e) (abs (TObj kvs)) = (toks, LOk (TObj kvs)) /\
-      run_obj_root narrow widen o b (map_prog ks e (map absp kvs)) = Done toks [] false /\
-      load_obj narrow widen o b (map_prog ks e (map absp kvs)) = MpScopeModel.LOk toks [].
+    exists toks, load_tr (SMap MClean ks e) i (abs (TObj kvs)) = (toks, LOk (TObj kvs)) /\
+      run_obj_root narrow widen o b (map_prog MClean ks e i (map absp kvs)) = Done toks [] false /\
+      load_obj narrow widen o b (map_prog MClean ks e i (map absp kvs)) = MpScopeModel.LOk toks [].
   Proof.
-    intros Hs Hw Hd Hsv Hb. destruct (load_save_spec narrow widen o _ _ Hs Hw Hd) as [toks E].
+    intros Hs Hc Hw Hd Hsv Hb. destruct (load_save_spec narrow widen o _ _ i Hs Hc Hw Hd) as [toks E].
     exists toks. split; [exact E|]. rewrite abs_obj in *.
-    exact (load_map_on_model b (map absp kvs) [] ks e toks _ Hb (save_decodes _ b Hw Hsv) Hd E I).
+    exact (load_map_on_model b (map absp kvs) [] MClean ks e i toks _ Hb (save_decodes _ b Hw Hsv) Hd E I).
   Qed.
 
-  Theorem load_save_vec_on_model l e b :
-    has_shape (TArr l) (SVec e) = true -> wf_tv (TArr l) -> doc_ok (abs (TArr l)) = true ->
+  Theorem load_save_vec_on_model l e i b :
+    has_shape (TArr l) (SVec e) = true -> clean_maps e = true -> wf_tv (TArr l) -> doc_ok (abs (TArr l)) = true ->
     save (TArr l) = Some b -> bytes b ->
-    exists toks, load_tr (SVec e) (abs (TArr l)) = (toks, LOk (TArr l)) /\
-      run_arr_root narrow widen o b (vec_prog e (map abs l)) = Done toks [] false /\
-      load_arr narrow widen o b (vec_prog e (map abs l)) = MpScopeModel.LOk toks [].
+    exists toks, load_tr (SVec e) i (abs (TArr l)) = (toks, LOk (TArr l)) /\
+      run_arr_root narrow widen o b (vec_prog e i (map abs l)) = Done toks [] false /\
+      load_arr narrow widen o b (vec_prog e i (map abs l)) = MpScopeModel.LOk toks [].
   Proof.
-    intros Hs Hw Hd Hsv Hb. destruct (load_save_spec narrow widen o _ _ Hs Hw Hd) as [toks E].
+    intros Hs Hc Hw Hd Hsv Hb. destruct (load_save_spec narrow widen o _ _ i Hs Hc Hw Hd) as [toks E].
     exists toks. split; [exact E|].
-    exact (load_vec_on_model b (map abs l) [] e toks _ Hb (save_decodes _ b Hw Hsv) Hd E I).
+    exact (load_vec_on_model b (map abs l) [] e i toks _ Hb (save_decodes _ b Hw Hsv) Hd E I).
   Qed.
 
   (* ---------- the result depends on the document only through the lookups of the member names ---------- *)
-  Lemma members_ext load kvs kvs' ms :
+  Lemma members_ext load kvs kvs' : forall ms inits,
     (forall name s', In (name, s') ms -> lookup (KStr name) kvs = lookup (KStr name) kvs') ->
-    members_tr load kvs ms = members_tr load kvs' ms.
+    members_tr load kvs inits ms = members_tr load kvs' inits ms.
   Proof.
-    induction ms as [|[name s'] ms IH]; intros H; [reflexivity|]. cbn [members_tr].
-    rewrite (H name s' (or_introl eq_refl)). rewrite IH by (intros n s0 Hin; apply (H n s0); right; exact Hin). reflexivity.
+    induction ms as [|[name s'] ms IH]; intros inits H; [reflexivity|]. cbn [members_tr].
+    rewrite (H name s' (or_introl eq_refl)). rewrite (IH (tl inits)) by (intros n s0 Hin; apply (H n s0); right; exact Hin). reflexivity.
   Qed.
 
-  Theorem load_class_ext kvs kvs' ms :
+  Theorem load_class_ext kvs kvs' ms i :
     (forall name s', In (name, s') ms -> lookup (KStr name) kvs = lookup (KStr name) kvs') ->
-    load_tr (SClass ms) (MMap kvs) = load_tr (SClass ms) (MMap kvs').
-  Proof. intros H. cbn [MpLoadModel.load_tr]. rewrite (members_ext load_tr kvs kvs' ms H). reflexivity. Qed.
+    load_tr (SClass ms) i (MMap kvs) = load_tr (SClass ms) i (MMap kvs').
+  Proof. intros H. cbn [MpLoadModel.load_tr]. rewrite (members_ext load_tr kvs kvs' ms (obj_fields i) H). reflexivity. Qed.
 
   Lemma lookup_app q a b : lookup q (a ++ b) = match lookup q a with Some v => Some v | None => lookup q b end.
   Proof.
@@ -990,9 +1131,9 @@ Section Transport.
   Qed.
 
   (* members the class does not declare, before / between / behind the declared ones *)
-  Theorem load_ignores_extra ms pre extra post :
+  Theorem load_ignores_extra ms i pre extra post :
     (forall name s', In (name, s') ms -> lookup (KStr name) extra = None) ->
-    load_tr (SClass ms) (MMap (pre ++ extra ++ post)) = load_tr (SClass ms) (MMap (pre ++ post)).
+    load_tr (SClass ms) i (MMap (pre ++ extra ++ post)) = load_tr (SClass ms) i (MMap (pre ++ post)).
   Proof.
     intros H. apply load_class_ext. intros name s' Hin. rewrite !lookup_app, (H name s' Hin). reflexivity.
   Qed.
@@ -1039,9 +1180,9 @@ Proof.
     apply Hiff in Hin. rewrite (lookup_none_in q l Hs E (k, v') kk Hin Hk) in Hq. discriminate Hq.
 Qed.
 
-Theorem load_order_free narrow widen o ms kvs kvs' :
+Theorem load_order_free narrow widen o ms i kvs kvs' :
   doc_ok (MMap kvs) = true -> doc_ok (MMap kvs') = true -> (forall kv, In kv kvs <-> In kv kvs') ->
-  load_tr narrow widen o (SClass ms) (MMap kvs) = load_tr narrow widen o (SClass ms) (MMap kvs').
+  load_tr narrow widen o (SClass ms) i (MMap kvs) = load_tr narrow widen o (SClass ms) i (MMap kvs').
 Proof.
   intros Hd Hd' Hiff. destruct (doc_ok_map _ Hd) as [Hs [Hk _]]. destruct (doc_ok_map _ Hd') as [Hs' [Hk' _]].
   apply load_class_ext. intros name s' _. apply lookup_perm; assumption.
@@ -1075,7 +1216,7 @@ Lemma ex_tree_keys : doc_ok (abs ex_tree) = true. Proof. vm_compute. reflexivity
 Lemma ex_tree_save : save ex_tree = Some ex_bytes. Proof. vm_compute. reflexivity. Qed.
 Lemma ex_tree_bytes : bytes ex_bytes. Proof. apply bytes_forallb. vm_compute. reflexivity. Qed.
 Lemma ex_tree_loads : load_bytes no_narrow id_widen skip_all ex_shape ex_bytes = LOk ex_tree.
-Proof. exact (load_save no_narrow id_widen skip_all ex_tree ex_shape ex_bytes ex_tree_shape ex_tree_wf ex_tree_keys ex_tree_save). Qed.
+Proof. exact (load_save no_narrow id_widen skip_all ex_tree ex_shape ex_bytes ex_tree_shape eq_refl ex_tree_wf ex_tree_keys ex_tree_save). Qed.
 (* the same members in another order, one dropped, two undeclared ones added: "t" keeps its default *)
 Definition ex_bytes2 : list N :=
   [0x85; 0xA1; 0x7A; 0xC0; 0x2A; 0xC3; 0xA1; 0x67; 0x90; 0xA2; 0x69; 0x64; 0x05; 0xA1; 0x78; 0x91; 0x01].
@@ -1087,7 +1228,7 @@ Proof. vm_compute. reflexivity. Qed.
 Definition ex_map_tree : tv :=
   TObj [(TStr [0x6D], TObj [(TInt IS8 (-3), TArr [TStr [0x61]]); (TInt IS8 5, TArr [])]);
         (TStr [0x6E], TObj [(TStr [], TInt IS32 1); (TStr [0x61], TInt IS32 (-2)); (TStr [0x61; 0x62], TInt IS32 3)])].
-Definition ex_map_shape : shape := SClass [([0x6D], SMap (KSInt IS8) (SVec SStr)); ([0x6E], SMap KSStr (SInt IS32))].
+Definition ex_map_shape : shape := SClass [([0x6D], SMap MClean (KSInt IS8) (SVec SStr)); ([0x6E], SMap MClean KSStr (SInt IS32))].
 Definition ex_map_bytes : list N :=
   [0x82; 0xA1; 0x6D; 0x82; 0xFD; 0x91; 0xA1; 0x61; 0x05; 0x90; 0xA1; 0x6E; 0x83; 0xA0; 0x01; 0xA1; 0x61; 0xFE; 0xA2; 0x61; 0x62; 0x03].
 Lemma ex_map_shape_ok : has_shape ex_map_tree ex_map_shape = true. Proof. vm_compute. reflexivity. Qed.
@@ -1095,7 +1236,7 @@ Lemma ex_map_wf : wf_tv ex_map_tree. Proof. vm_compute. repeat split. Qed.
 Lemma ex_map_keys : doc_ok (abs ex_map_tree) = true. Proof. vm_compute. reflexivity. Qed.
 Lemma ex_map_save : save ex_map_tree = Some ex_map_bytes. Proof. vm_compute. reflexivity. Qed.
 Lemma ex_map_loads : load_bytes no_narrow id_widen skip_all ex_map_shape ex_map_bytes = LOk ex_map_tree.
-Proof. exact (load_save no_narrow id_widen skip_all ex_map_tree ex_map_shape ex_map_bytes ex_map_shape_ok ex_map_wf ex_map_keys ex_map_save). Qed.
+Proof. exact (load_save no_narrow id_widen skip_all ex_map_tree ex_map_shape ex_map_bytes ex_map_shape_ok eq_refl ex_map_wf ex_map_keys ex_map_save). Qed.
 (* { "n": {"ab":3, "":1}, "m": {5:[], 300:["x"], -3:["a"]} }: the keys arrive in another order (the maps sort them),
    300 does not fit int8_t: passed over under the Skip policy, an Overflow error under Throw *)
 Definition ex_map_bytes2 : list N :=
@@ -1142,63 +1283,58 @@ Section ReadOff.
   Variable o : opts.
   Notation load_tr := (load_tr narrow widen o).
 
-  Definition reads (rd : list tok -> option (lres * list tok)) (ld : mpv -> list tok * lres) : Prop :=
-    forall v toks r rest, ld v = (toks, r) -> no_err r -> rd (toks ++ rest) = Some (r, rest).
+  Definition reads (rd : tv -> list tok -> option (lres * list tok)) (ld : tv -> mpv -> list tok * lres) : Prop :=
+    forall i v toks r rest, ld i v = (toks, r) -> no_err r -> rd i (toks ++ rest) = Some (r, rest).
 
   Definition read_ok' (s : shape) : Prop :=
-    reads (read_off s) (load_tr s) /\ forall rest, read_off s (absent_toks s ++ rest) = Some (LNot, rest).
+    reads (read_off s) (load_tr s) /\ forall i rest, read_off s i (absent_toks s ++ rest) = Some (LNot, rest).
   (* for shapes without std::map (the keys of a map are not among the tokens) *)
   Definition read_ok (s : shape) : Prop := map_free s = true -> read_ok' s.
 
-  Lemma elems_len e ld : forall vs t items err, elems_tr e ld vs = (t, items, err) -> (1 <= length t)%nat.
+  Lemma elems_read e rd ld after : reads rd ld ->
+    forall vs inits t items, elems_tr e ld after inits vs = (t, items, None) ->
+    forall fuel rest, (length vs < fuel)%nat -> read_elems e rd after fuel inits (t ++ KClose :: rest) = Some (items, rest).
   Proof.
-    destruct vs as [|v vs]; intros t items err H; cbn [elems_tr] in H.
-    - injection H as <- _ _. cbn. lia.
-    - destruct (ld v) as [t0 r]. destruct r; [| |injection H as <- _ _; cbn; lia].
-      all: destruct (elems_tr e ld vs) as [[t' i'] e']; injection H as <- _ _; cbn; lia.
-  Qed.
-
-  Lemma elems_read e rd ld : reads rd ld ->
-    forall vs t items, elems_tr e ld vs = (t, items, None) ->
-    forall fuel rest, (length vs < fuel)%nat -> read_elems e rd fuel (t ++ KClose :: rest) = Some (items, rest).
-  Proof.
-    intros Hrd. induction vs as [|v vs IH]; intros t items H fuel rest Hf; (destruct fuel as [|f]; [cbn [length] in Hf; lia|]); cbn [elems_tr] in H.
+    intros Hrd. induction vs as [|v vs IH]; intros inits t items H fuel rest Hf; (destruct fuel as [|f]; [cbn [length] in Hf; lia|]); cbn [elems_tr] in H.
     - injection H as <- <-. reflexivity.
-    - destruct (ld v) as [t0 r] eqn:El.
-      assert (Hr : no_err r /\ exists t' items', elems_tr e ld vs = (t', items', None) /\ t = KIsEnd false :: t0 ++ t' /\ items = fill e r :: items').
+    - destruct (ld (hd (default_of e) inits) v) as [t0 r] eqn:El.
+      assert (Hr : no_err r /\ exists t' items', elems_tr e ld after (tl inits) vs = (t', items', None) /\ t = KIsEnd false :: t0 ++ t'
+                     /\ items = after (hd (default_of e) inits) r :: items').
       { destruct r; [| |discriminate H].
-        all: destruct (elems_tr e ld vs) as [[t' i'] e']; injection H as <- <- ->; split; [exact I | eauto]. }
+        all: destruct (elems_tr e ld after (tl inits) vs) as [[t' i'] e']; injection H as <- <- ->; split; [exact I | eauto]. }
       destruct Hr as [Hn [t' [items' [Hrest [-> ->]]]]].
-      cbn [app read_elems]. rewrite <- app_assoc. rewrite (Hrd v t0 r _ El Hn).
-      rewrite (IH t' items' Hrest f rest) by (cbn [length] in Hf; lia). reflexivity.
+      cbn [app read_elems]. rewrite <- app_assoc. rewrite (Hrd _ v t0 r _ El Hn).
+      rewrite (IH (tl inits) t' items' Hrest f rest) by (cbn [length] in Hf; lia). reflexivity.
   Qed.
 
-  Lemma vec_read e rd ld mk v toks r rest : reads rd ld -> vec_tr o e ld mk v = (toks, r) -> no_err r ->
+  Lemma elems_count e ld after : forall vs inits t items, elems_tr e ld after inits vs = (t, items, None) -> (length vs < length t + 1)%nat.
+  Proof.
+    induction vs as [|v vs IH]; intros inits t items Et; cbn [elems_tr] in Et.
+    - injection Et as <- _. cbn. lia.
+    - destruct (ld (hd (default_of e) inits) v) as [t0 r]. destruct r; [| |discriminate Et].
+      all: destruct (elems_tr e ld after (tl inits) vs) as [[t' i'] e'] eqn:E'; injection Et as <- _ ->;
+           specialize (IH _ t' i' E'); cbn [length]; rewrite app_length; lia.
+  Qed.
+
+  Lemma arr_read e rd ld after mk inits v toks r rest : reads rd ld -> arr_tr o e ld after mk inits v = (toks, r) -> no_err r ->
     (exists t items, toks = KOpen :: t /\ r = LOk (mk items) /\
-       forall fuel, (length t <= fuel)%nat -> read_elems e rd fuel (t ++ rest) = Some (items, rest)) \/
+       forall fuel, (length t <= fuel)%nat -> read_elems e rd after fuel inits (t ++ rest) = Some (items, rest)) \/
     (toks = [KNone] /\ r = LNot).
   Proof.
-    intros Hrd H Hn. unfold vec_tr in H.
+    intros Hrd H Hn. unfold arr_tr in H.
     assert (Hnc : forall w, no_container o w = (toks, r) -> toks = [KNone] /\ r = LNot).
     { intros w Hw. unfold no_container in Hw. destruct w; destruct (o_mismatch o); injection Hw as <- <-; try (exfalso; exact Hn); split; reflexivity. }
     destruct v; try (right; eapply Hnc; exact H).
-    left. destruct (elems_tr e ld l) as [[t items] err] eqn:Et. destruct err as [err|].
+    left. destruct (elems_tr e ld after inits l) as [[t items] err] eqn:Et. destruct err as [err|].
     { injection H as _ <-. destruct Hn. }
     injection H as <- <-. exists (t ++ [KClose]), items. split; [reflexivity|]. split; [reflexivity|].
-    intros fuel Hf. rewrite <- app_assoc. cbn [app]. apply (elems_read e rd ld Hrd l t items Et).
-    rewrite app_length in Hf. cbn [length] in Hf.
-    assert (Hl : (length l < length t + 1)%nat).
-    { clear -Et. revert t items Et. induction l as [|v l IH]; intros t items Et; cbn [elems_tr] in Et.
-      - injection Et as <- _. cbn. lia.
-      - destruct (ld v) as [t0 r]. destruct r; [| |discriminate Et].
-        all: destruct (elems_tr e ld l) as [[t' i'] e'] eqn:E'; injection Et as <- _ ->;
-             specialize (IH t' i' eq_refl); cbn [length]; rewrite app_length; lia. }
-    lia.
+    intros fuel Hf. rewrite <- app_assoc. cbn [app]. apply (elems_read e rd ld after Hrd l inits t items Et).
+    rewrite app_length in Hf. cbn [length] in Hf. pose proof (elems_count e ld after l inits t items Et). lia.
   Qed.
 
-  Lemma scalar_reads s t : reads (read_scalar s) (scalar_tr narrow widen o s t).
+  Lemma scalar_reads s t : reads (read_scalar s) (scalar_ld narrow widen o s t).
   Proof.
-    intros v toks r rest H Hn. unfold scalar_tr in H. destruct (typed_spec narrow widen o t v); injection H as <- <-;
+    intros i v toks r rest H Hn. unfold scalar_ld, scalar_tr in H. destruct (typed_spec narrow widen o t v); injection H as <- <-;
       try (exfalso; exact Hn); reflexivity.
   Qed.
 
@@ -1206,20 +1342,21 @@ Section ReadOff.
   Proof. induction bs as [|b bs IH]; [reflexivity|]. cbn [map app read_bytes]. rewrite IH. reflexivity. Qed.
 
   Lemma members_read kvs ms : Forall (fun m => read_ok' (snd m)) ms ->
-    forall t fields, members_tr load_tr kvs ms = (t, fields, None) ->
-    forall rest, read_members read_off ms (t ++ rest) = Some (fields, rest).
+    forall inits t fields, members_tr load_tr kvs inits ms = (t, fields, None) ->
+    forall rest, read_members read_off inits ms (t ++ rest) = Some (fields, rest).
   Proof.
-    induction 1 as [|[name s'] ms [Hrd Habs] _ IH]; intros t fields H rest; cbn [members_tr read_members] in *.
+    induction 1 as [|[name s'] ms [Hrd Habs] _ IH]; intros inits t fields H rest; cbn [members_tr read_members] in *.
     - injection H as <- <-. reflexivity.
     - cbn [snd] in Hrd, Habs.
-      destruct (match lookup (KStr name) kvs with Some x => load_tr s' x | None => (absent_toks s', LNot) end) as [t0 r] eqn:El.
-      assert (Hr : no_err r /\ exists t' f', members_tr load_tr kvs ms = (t', f', None) /\ t = t0 ++ t' /\ fields = (TStr name, fill s' r) :: f').
+      set (i0 := match inits with (_, x) :: _ => x | [] => default_of s' end) in *.
+      destruct (match lookup (KStr name) kvs with Some x => load_tr s' i0 x | None => (absent_toks s', LNot) end) as [t0 r] eqn:El.
+      assert (Hr : no_err r /\ exists t' f', members_tr load_tr kvs (tl inits) ms = (t', f', None) /\ t = t0 ++ t' /\ fields = (TStr name, keep i0 r) :: f').
       { destruct r; [| |discriminate H].
-        all: destruct (members_tr load_tr kvs ms) as [[t' f'] e']; injection H as <- <- ->; split; [exact I | eauto]. }
+        all: destruct (members_tr load_tr kvs (tl inits) ms) as [[t' f'] e']; injection H as <- <- ->; split; [exact I | eauto]. }
       destruct Hr as [Hn [t' [f' [Hrest [-> ->]]]]]. rewrite <- app_assoc.
-      assert (E0 : read_off s' (t0 ++ t' ++ rest) = Some (r, t' ++ rest)).
-      { destruct (lookup (KStr name) kvs) as [x|]; [exact (Hrd x t0 r _ El Hn) | injection El as <- <-; apply Habs]. }
-      rewrite E0, (IH t' f' Hrest rest). reflexivity.
+      assert (E0 : read_off s' i0 (t0 ++ t' ++ rest) = Some (r, t' ++ rest)).
+      { destruct (lookup (KStr name) kvs) as [x|]; [exact (Hrd i0 x t0 r _ El Hn) | injection El as <- <-; apply Habs]. }
+      rewrite E0, (IH (tl inits) t' f' Hrest rest). reflexivity.
   Qed.
 
   Lemma bools_read : forall vs prev t items, bools_tr (scalar_tr narrow widen o SBool (TgInt (mkIty false 1))) prev vs = (t, items, None) ->
@@ -1248,76 +1385,77 @@ Section ReadOff.
   Qed.
 
   Lemma comps_read ss : Forall read_ok' ss ->
-    forall vs t items, comps_tr o load_tr ss vs = (t, items, None) ->
-    forall rest, read_comps read_off ss (t ++ KClose :: rest) = Some (items, rest).
+    forall inits vs t items, comps_tr o load_tr ss inits vs = (t, items, None) ->
+    forall rest, read_comps read_off ss inits (t ++ KClose :: rest) = Some (items, rest).
   Proof.
-    induction 1 as [|s ss [Hrd _] _ IH]; intros vs t items H rest; cbn [comps_tr read_comps] in *.
+    induction 1 as [|s ss [Hrd _] _ IH]; intros inits vs t items H rest; cbn [comps_tr read_comps] in *.
     - destruct vs as [|v vs]; [injection H as <- <-; reflexivity|].
       destruct (o_mismatch o); [discriminate H|]. injection H as <- <-. reflexivity.
     - destruct vs as [|v vs].
       + destruct (o_mismatch o); [discriminate H|]. injection H as <- <-. reflexivity.
-      + destruct (load_tr s v) as [t0 r] eqn:El.
-        assert (Hr : no_err r /\ exists t' items', comps_tr o load_tr ss vs = (t', items', None) /\ t = KIsEnd false :: t0 ++ t' /\ items = fill s r :: items').
+      + destruct (load_tr s (hd (default_of s) inits) v) as [t0 r] eqn:El.
+        assert (Hr : no_err r /\ exists t' items', comps_tr o load_tr ss (tl inits) vs = (t', items', None) /\ t = KIsEnd false :: t0 ++ t'
+                       /\ items = keep (hd (default_of s) inits) r :: items').
         { destruct r; [| |discriminate H].
-          all: destruct (comps_tr o load_tr ss vs) as [[t' i'] e']; injection H as <- <- ->; split; [exact I | eauto]. }
+          all: destruct (comps_tr o load_tr ss (tl inits) vs) as [[t' i'] e']; injection H as <- <- ->; split; [exact I | eauto]. }
         destruct Hr as [Hn [t' [items' [Hrest [-> ->]]]]].
-        cbn [app]. rewrite <- app_assoc. rewrite (Hrd v t0 r (t' ++ KClose :: rest) El Hn), (IH vs t' items' Hrest rest). reflexivity.
+        cbn [app]. rewrite <- app_assoc. rewrite (Hrd _ v t0 r (t' ++ KClose :: rest) El Hn), (IH (tl inits) vs t' items' Hrest rest). reflexivity.
   Qed.
 
   Theorem read_off_ok : forall s, read_ok s.
   Proof.
     apply shape_ind'.
     - intros s Hs _.
-      assert (Ht : exists t, (forall v, load_tr s v = scalar_tr narrow widen o s t v) /\ (forall x, read_off s x = read_scalar s x) /\ absent_toks s = [KFalse])
+      assert (Ht : exists t, (forall i v, load_tr s i v = scalar_ld narrow widen o s t i v) /\ (forall i x, read_off s i x = read_scalar s i x) /\ absent_toks s = [KFalse])
         by (destruct s; try destruct Hs; eexists; repeat split).
       destruct Ht as [t [Hl [Hr Ha]]]. split.
-      + intros v toks r rest H Hn. rewrite Hl in H. rewrite Hr. exact (scalar_reads s t v toks r rest H Hn).
-      + intros rest. rewrite Ha, Hr. reflexivity.
+      + intros i v toks r rest H Hn. rewrite Hl in H. rewrite Hr. exact (scalar_reads s t i v toks r rest H Hn).
+      + intros i rest. rewrite Ha, Hr. reflexivity.
     - (* byte container *)
-      intros _. split; [|intros rest; reflexivity].
-      intros v toks r rest H Hn. cbn [MpLoadModel.load_tr] in H.
-      assert (Hfb : forall t0 r0, vec_tr o (SInt IU8) (scalar_tr narrow widen o (SInt IU8) (TgInt (mkIty false 8))) (fun items => TBytes (map byte_of items)) v = (t0, r0) ->
-                toks = KNone :: t0 -> r = r0 -> read_off SBytes (toks ++ rest) = Some (r, rest)).
-      { intros t0 r0 Ev -> ->.
-        destruct (vec_read (SInt IU8) (read_scalar (SInt IU8)) _ _ v t0 r0 rest (scalar_reads (SInt IU8) _) Ev Hn)
+      intros _. split; [|intros i rest; reflexivity].
+      intros i v toks r rest H Hn. cbn [MpLoadModel.load_tr] in H.
+      assert (Hfb : forall t0 r0, vec_tr o (SInt IU8) (scalar_ld narrow widen o (SInt IU8) (TgInt (mkIty false 8))) (fun items => TBytes (map byte_of items)) [] v = (t0, r0) ->
+                toks = KNone :: t0 -> r = r0 -> read_off SBytes i (toks ++ rest) = Some (r, rest)).
+      { intros t0 r0 Ev -> ->. rewrite vec_is_arr in Ev.
+        destruct (arr_read (SInt IU8) (read_scalar (SInt IU8)) _ _ _ [] v t0 r0 rest (scalar_reads (SInt IU8) _) Ev Hn)
           as [[t [items [-> [-> Hre]]]] | [-> ->]]; [|reflexivity].
         cbn [app read_off]. rewrite Hre by (rewrite app_length; lia). reflexivity. }
       destruct (is_bin v) eqn:Hb.
       + destruct v; try discriminate Hb. injection H as <- <-. cbn [app read_off]. rewrite <- app_assoc. cbn [app].
         rewrite bytes_read. reflexivity.
-      + assert (H' : (let (t, r0) := vec_tr o (SInt IU8) (scalar_tr narrow widen o (SInt IU8) (TgInt (mkIty false 8)))
-                                        (fun items => TBytes (map byte_of items)) v in (KNone :: t, r0)) = (toks, r))
+      + assert (H' : (let (t, r0) := vec_tr o (SInt IU8) (scalar_ld narrow widen o (SInt IU8) (TgInt (mkIty false 8)))
+                                        (fun items => TBytes (map byte_of items)) [] v in (KNone :: t, r0)) = (toks, r))
           by (destruct v; try discriminate Hb; exact H).
-        destruct (vec_tr o (SInt IU8) _ _ v) as [t0 r0] eqn:Ev. injection H' as <- <-.
+        destruct (vec_tr o (SInt IU8) _ _ [] v) as [t0 r0] eqn:Ev. injection H' as <- <-.
         eapply Hfb; reflexivity.
     - (* sequence container *)
-      intros e IH Hf. destruct (IH Hf) as [IHe _]. split; [|intros rest; reflexivity].
-      intros v toks r rest H Hn. cbn [MpLoadModel.load_tr] in H.
-      destruct (vec_read e (read_off e) _ _ v toks r rest IHe H Hn) as [[t [items [-> [-> Hre]]]] | [-> ->]]; [|reflexivity].
+      intros e IH Hf. destruct (IH Hf) as [IHe _]. split; [|intros i rest; reflexivity].
+      intros i v toks r rest H Hn. cbn [MpLoadModel.load_tr] in H. rewrite vec_is_arr in H.
+      destruct (arr_read e (read_off e) _ _ _ _ v toks r rest IHe H Hn) as [[t [items [-> [-> Hre]]]] | [-> ->]]; [|reflexivity].
       cbn [app read_off]. rewrite Hre by (rewrite app_length; lia). reflexivity.
     - (* class *)
       intros ms Hms0 Hf. rewrite map_free_class, forallb_forall in Hf.
       assert (Hms : Forall (fun m => read_ok' (snd m)) ms).
       { rewrite Forall_forall in Hms0. apply Forall_forall. intros m Hin. exact (Hms0 m Hin (Hf m Hin)). }
-      split; [|intros rest; reflexivity].
-      intros v toks r rest H Hn. cbn [MpLoadModel.load_tr] in H.
-      assert (Hnc : forall w, no_container o w = (toks, r) -> read_off (SClass ms) (toks ++ rest) = Some (r, rest)).
+      split; [|intros i rest; reflexivity].
+      intros i v toks r rest H Hn. cbn [MpLoadModel.load_tr] in H.
+      assert (Hnc : forall w, no_container o w = (toks, r) -> read_off (SClass ms) i (toks ++ rest) = Some (r, rest)).
       { intros w Hw. unfold no_container in Hw. destruct w; destruct (o_mismatch o); injection Hw as <- <-; try (exfalso; exact Hn); reflexivity. }
       destruct v; try (eapply Hnc; exact H).
-      destruct (members_tr load_tr l ms) as [[t fields] err] eqn:Et. destruct err as [err|].
+      destruct (members_tr load_tr l (obj_fields i) ms) as [[t fields] err] eqn:Et. destruct err as [err|].
       { injection H as _ <-. destruct Hn. }
       injection H as <- <-. cbn [app read_off]. rewrite <- app_assoc. cbn [app].
-      rewrite (members_read l ms Hms t fields Et). reflexivity.
-    - intros ks e _ Hf. discriminate Hf.
+      rewrite (members_read l ms Hms (obj_fields i) t fields Et). reflexivity.
+    - intros m ks e _ Hf. discriminate Hf.
     - (* fixed-size array *)
-      intros n e IH Hf. destruct (IH Hf) as [IHe _]. split; [|intros rest; reflexivity].
-      intros v toks r rest H Hn. pose proof (arr_as_vec narrow widen o n e v toks r H Hn) as H'.
-      destruct (vec_read e (read_off e) _ _ v toks r rest IHe H' Hn) as [[t [items [-> [-> Hre]]]] | [-> ->]]; [|reflexivity].
+      intros n e IH Hf. destruct (IH Hf) as [IHe _]. split; [|intros i rest; reflexivity].
+      intros i v toks r rest H Hn. pose proof (arr_as_vec narrow widen o n e i v toks r H Hn) as H'.
+      destruct (arr_read e (read_off e) _ _ _ _ v toks r rest IHe H' Hn) as [[t [items [-> [-> Hre]]]] | [-> ->]]; [|reflexivity].
       cbn [app read_off]. rewrite Hre by (rewrite app_length; lia). reflexivity.
     - (* std::vector<bool> *)
-      intros _. split; [|intros rest; reflexivity].
-      intros v toks r rest H Hn. cbn [MpLoadModel.load_tr] in H.
-      assert (Hnc : forall w, no_container o w = (toks, r) -> read_off SVecBool (toks ++ rest) = Some (r, rest)).
+      intros _. split; [|intros i rest; reflexivity].
+      intros i v toks r rest H Hn. cbn [MpLoadModel.load_tr] in H.
+      assert (Hnc : forall w, no_container o w = (toks, r) -> read_off SVecBool i (toks ++ rest) = Some (r, rest)).
       { intros w Hw. unfold no_container in Hw. destruct w; destruct (o_mismatch o); injection Hw as <- <-; try (exfalso; exact Hn); reflexivity. }
       destruct v; try (eapply Hnc; exact H).
       destruct (bools_tr _ false l) as [[t items] err] eqn:Et. destruct err as [err|].
@@ -1329,22 +1467,167 @@ Section ReadOff.
       intros ss Hss0 Hf. rewrite map_free_tuple, forallb_forall in Hf.
       assert (Hss : Forall read_ok' ss).
       { rewrite Forall_forall in Hss0. apply Forall_forall. intros s0 Hin. exact (Hss0 s0 Hin (Hf s0 Hin)). }
-      split; [|intros rest; reflexivity].
-      intros v toks r rest H Hn. cbn [MpLoadModel.load_tr] in H.
-      assert (Hnc : forall w, no_container o w = (toks, r) -> read_off (STuple ss) (toks ++ rest) = Some (r, rest)).
+      split; [|intros i rest; reflexivity].
+      intros i v toks r rest H Hn. cbn [MpLoadModel.load_tr] in H.
+      assert (Hnc : forall w, no_container o w = (toks, r) -> read_off (STuple ss) i (toks ++ rest) = Some (r, rest)).
       { intros w Hw. unfold no_container in Hw. destruct w; destruct (o_mismatch o); injection Hw as <- <-; try (exfalso; exact Hn); reflexivity. }
       destruct v; try (eapply Hnc; exact H).
-      destruct (comps_tr o load_tr ss l) as [[t items] err] eqn:Et. destruct err as [err|].
+      destruct (comps_tr o load_tr ss (arr_items i) l) as [[t items] err] eqn:Et. destruct err as [err|].
       { injection H as _ <-. destruct Hn. }
       injection H as <- <-. cbn [app read_off]. rewrite <- app_assoc. cbn [app].
-      rewrite (comps_read ss Hss l t items Et). reflexivity.
+      rewrite (comps_read ss Hss (arr_items i) l t items Et). reflexivity.
   Qed.
 
-  (* what the program's answers say is what load_spec says *)
-  Corollary read_off_load s v : map_free s = true -> no_err (load_spec narrow widen o s v) ->
-    read_off s (load_toks narrow widen o s v) = Some (load_spec narrow widen o s v, []).
+  (* what the program's answers say is what load_spec says, whatever the target holds *)
+  Corollary read_off_load s i v : map_free s = true -> no_err (load_spec narrow widen o s i v) ->
+    read_off s i (load_toks narrow widen o s i v) = Some (load_spec narrow widen o s i v, []).
   Proof.
-    intros Hf Hn. unfold load_spec, load_toks in *. destruct (load_tr s v) as [toks r] eqn:E. cbn [fst snd] in *.
-    pose proof (proj1 (read_off_ok s Hf) v toks r [] E Hn) as R. rewrite app_nil_r in R. exact R.
+    intros Hf Hn. unfold load_spec, load_toks in *. destruct (load_tr s i v) as [toks r] eqn:E. cbn [fst snd] in *.
+    pose proof (proj1 (read_off_ok s Hf) i v toks r [] E Hn) as R. rewrite app_nil_r in R. exact R.
   Qed.
 End ReadOff.
+
+(* ---------- loading into a populated target (C18 at the MsgPack document level) ---------- *)
+Section Populated.
+  Variable narrow : N -> option N.
+  Variable widen : N -> N.
+  Variable o : opts.
+  Notation load_tr := (load_tr narrow widen o).
+
+  Lemma elems_indep e ld after : (forall i i' v, ld i v = ld i' v) -> (forall i i' r, after i r = after i' r) ->
+    forall vs inits inits', elems_tr e ld after inits vs = elems_tr e ld after inits' vs.
+  Proof.
+    intros Hl Ha. induction vs as [|v vs IH]; intros inits inits'; [reflexivity|]. cbn [elems_tr].
+    rewrite (Hl (hd (default_of e) inits) (hd (default_of e) inits') v), (IH (tl inits) (tl inits')).
+    destruct (ld (hd (default_of e) inits') v) as [t r]. destruct r; try reflexivity;
+      rewrite (Ha (hd (default_of e) inits) (hd (default_of e) inits')); reflexivity.
+  Qed.
+
+  (* targets that keep nothing: whatever they hold, the load consumes the same answers and gives the same result *)
+  Theorem overwritten_indep : forall s, overwritten s = true -> forall i i' v, load_tr s i v = load_tr s i' v.
+  Proof.
+    apply (shape_ind' (fun s => overwritten s = true -> forall i i' v, load_tr s i v = load_tr s i' v)).
+    - intros s Hs _ i i' v. destruct s; try destruct Hs; reflexivity.
+    - intros _ i i' v. reflexivity.
+    - intros e IH Hf i i' v. cbn [overwritten] in Hf. cbn [MpLoadModel.load_tr]. unfold vec_tr. destruct v; try reflexivity.
+      rewrite (elems_indep e (load_tr e) (fun _ r => fill e r) (IH Hf) (fun _ _ _ => eq_refl) l (arr_items i) (arr_items i')). reflexivity.
+    - intros ms _ Hf. discriminate Hf.
+    - intros m ks e _ Hf i i' v. destruct m; try discriminate Hf. reflexivity.
+    - intros n e _ Hf. discriminate Hf.
+    - intros _ i i' v. reflexivity.
+    - intros ss _ Hf. discriminate Hf.
+  Qed.
+
+  (* MapLoadMode::Clean: whatever the map holds and whatever its mapped values are: as into an empty map *)
+  Theorem clean_is_fresh ks e i i' v : load_tr (SMap MClean ks e) i v = load_tr (SMap MClean ks e) i' v.
+  Proof. reflexivity. Qed.
+
+  (* UpdateKeys into an empty map is Clean *)
+  Theorem update_empty_is_clean ks e i v : load_tr (SMap MUpdate ks e) (TObj []) v = load_tr (SMap MClean ks e) i v.
+  Proof. reflexivity. Qed.
+
+  (* ---- the keys of the map after the load ---- *)
+  Lemma replace_keys k x : forall m, map fst (map_replace k x m) = map fst m.
+  Proof.
+    induction m as [|[k' x'] m IH]; [reflexivity|]. cbn [map_replace]. destruct (tkey_eqb k k'); cbn [map fst]; [reflexivity | rewrite IH; reflexivity].
+  Qed.
+
+  Lemma insert_keeps k x k0 : forall m, In k0 (map fst m) -> In k0 (map fst (map_insert k x m)).
+  Proof.
+    induction m as [|[k' x'] m IH]; intros H; [destruct H|]. cbn [map_insert]. destruct (tkey_ltb k k').
+    - right. exact H.
+    - cbn [map fst] in *. destruct H as [H | H]; [left; exact H | right; exact (IH H)].
+  Qed.
+
+  Lemma put_keeps k x k0 m : In k0 (map fst m) -> In k0 (map fst (map_put k x m)).
+  Proof.
+    intros H. unfold map_put. destruct (map_find k m); [rewrite replace_keys; exact H | exact (insert_keeps k x k0 m H)].
+  Qed.
+
+  Lemma apply_keeps k0 : forall es m, In k0 (map fst m) -> In k0 (map fst (map_apply m es)).
+  Proof.
+    induction es as [|[k x] es IH]; intros m H; [exact H|]. unfold map_apply in *. cbn [fold_left fst snd]. apply IH. exact (put_keeps k x k0 m H).
+  Qed.
+
+  Lemma find_by_keys k : forall m m', map fst m = map fst m' -> map_find k m = None -> map_find k m' = None.
+  Proof.
+    induction m as [|[k1 x1] m IH]; intros [|[k2 x2] m'] E H; try discriminate E; [reflexivity|].
+    cbn [map fst] in E. injection E as <- E. cbn [map_find] in *. destruct (tkey_eqb k k1); [discriminate H | exact (IH m' E H)].
+  Qed.
+
+  Lemma apply_found : forall es m, (forall kv, In kv es -> map_find (fst kv) m <> None) -> map fst (map_apply m es) = map fst m.
+  Proof.
+    induction es as [|[k x] es IH]; intros m H; [reflexivity|]. unfold map_apply in *. cbn [fold_left fst snd].
+    assert (Hk : map fst (map_put k x m) = map fst m).
+    { unfold map_put. destruct (map_find k m) eqn:Ef; [apply replace_keys | exfalso; exact (H (k, x) (or_introl eq_refl) Ef)]. }
+    rewrite IH; [exact Hk|]. intros kv Hin Hnone. apply (H kv (or_intror Hin)).
+    exact (find_by_keys (fst kv) _ _ Hk Hnone).
+  Qed.
+
+  (* OnlyExistKeys: every update is for a key the map has *)
+  Lemma only_found ks e ld m0 : forall kvs t es err, entries_tr o true ks e ld m0 kvs = (t, es, err) ->
+    forall kv, In kv es -> map_find (fst kv) m0 <> None.
+  Proof.
+    induction kvs as [|[k x] kvs IH]; intros t es err H kv Hin; cbn [entries_tr] in H.
+    - injection H as _ <- _. destruct Hin.
+    - destruct (keyden k) as [kk|]; [|injection H as _ <- _; destruct Hin].
+      destruct (conv_key o ks kk) as [key| |e0]; [|exact (IH _ _ _ H kv Hin) | injection H as _ <- _; destruct Hin].
+      destruct (map_find key m0) as [old|] eqn:Ef; [|exact (IH _ _ _ H kv Hin)].
+      destruct (ld old x) as [t0 r]. destruct r as [y| |e0]; [| |injection H as _ <- _; destruct Hin].
+      all: destruct (entries_tr o true ks e ld m0 kvs) as [[t' es'] err'] eqn:E'; injection H as _ <- _;
+           (destruct Hin as [<- | Hin]; [cbn [fst]; rewrite Ef; discriminate | exact (IH _ _ _ eq_refl kv Hin)]).
+  Qed.
+
+  (* OnlyExistKeys never adds (nor removes) a key, whatever the document *)
+  Theorem only_exist_keeps_keys ks e m0 v toks x : load_tr (SMap MOnlyExist ks e) (TObj m0) v = (toks, LOk x) ->
+    exists m', x = TObj m' /\ map fst m' = map fst m0.
+  Proof.
+    intros H. cbn [MpLoadModel.load_tr obj_fields] in H.
+    destruct v; try (unfold no_container in H; destruct (o_mismatch o); discriminate H).
+    destruct (entries_tr o true ks e (load_tr e) m0 l) as [[t es] err] eqn:Et. destruct err as [err|]; [discriminate H|].
+    injection H as _ <-. eexists. split; [reflexivity|]. apply apply_found. exact (only_found ks e (load_tr e) m0 l t es None Et).
+  Qed.
+
+  (* UpdateKeys (and OnlyExistKeys) never removes a key, whatever the document *)
+  Theorem update_keeps_keys m ks e m0 v toks x : m <> MClean -> load_tr (SMap m ks e) (TObj m0) v = (toks, LOk x) ->
+    exists m', x = TObj m' /\ forall k, In k (map fst m0) -> In k (map fst m').
+  Proof.
+    intros Hm H. cbn [MpLoadModel.load_tr] in H.
+    destruct v; try (unfold no_container in H; destruct (o_mismatch o); discriminate H).
+    assert (E0 : (match m with MClean => [] | _ => obj_fields (TObj m0) end) = m0) by (destruct m; [contradiction | reflexivity | reflexivity]).
+    rewrite E0 in H.
+    destruct (entries_tr o _ ks e (load_tr e) m0 l) as [[t es] err] eqn:Et. destruct err as [err|]; [discriminate H|].
+    injection H as _ <-. eexists. split; [reflexivity|]. intros k Hin. exact (apply_keeps k es m0 Hin).
+  Qed.
+
+  (* a target that is not loaded at all keeps what it holds: the caller's value stays i (LNot) *)
+  (* class members, elements of fixed-size arrays and components of tuples that are not loaded keep their content:
+     { "a": 5 } into class { a; b } holding { a = 1; b = 2 } gives { a = 5; b = 2 } (known finding F36 of C18, by design) *)
+End Populated.
+
+Definition pop_shape : shape := SClass [([0x61], SInt IS32); ([0x62], SInt IS32)].
+Lemma pop_class_keeps :
+  load_bytes_into no_narrow id_widen skip_all pop_shape (TObj [(TStr [0x61], TInt IS32 1); (TStr [0x62], TInt IS32 2)]) [0x81; 0xA1; 0x61; 0x05] =
+    LOk (TObj [(TStr [0x61], TInt IS32 5); (TStr [0x62], TInt IS32 2)]).
+Proof. vm_compute. reflexivity. Qed.
+
+(* std::map<string, int32> holding { "a": 1, "c": 3 }, document { "b": 20, "c": 30 } *)
+Definition pop_map (m : mmode) : shape := SMap m KSStr (SInt IS32).
+Definition pop_prior : tv := TObj [(TStr [0x61], TInt IS32 1); (TStr [0x63], TInt IS32 3)].
+Definition pop_doc : list N := [0x82; 0xA1; 0x62; 0x14; 0xA1; 0x63; 0x1E].
+Lemma pop_map_modes :
+  load_bytes_into no_narrow id_widen skip_all (pop_map MClean) pop_prior pop_doc = LOk (TObj [(TStr [0x62], TInt IS32 20); (TStr [0x63], TInt IS32 30)]) /\
+  load_bytes_into no_narrow id_widen skip_all (pop_map MOnlyExist) pop_prior pop_doc = LOk (TObj [(TStr [0x61], TInt IS32 1); (TStr [0x63], TInt IS32 30)]) /\
+  load_bytes_into no_narrow id_widen skip_all (pop_map MUpdate) pop_prior pop_doc =
+    LOk (TObj [(TStr [0x61], TInt IS32 1); (TStr [0x62], TInt IS32 20); (TStr [0x63], TInt IS32 30)]).
+Proof. repeat split; vm_compute; reflexivity. Qed.
+
+(* the shape computed from a value has no std::map *)
+Lemma shape_of_clean : forall v, clean_maps (shape_of v) = true.
+Proof.
+  apply tv_ind2; try (intros; reflexivity).
+  - intros l HF. cbn [shape_of clean_maps]. destruct l as [|x l]; [reflexivity|]. inversion HF; assumption.
+  - intros kvs HF. cbn [shape_of]. rewrite clean_maps_class.
+    induction kvs as [|[k x] kvs IH]; [reflexivity|]. inversion HF as [|? ? [_ Hx] Hl]; subst. cbn [fst snd] in Hx.
+    cbn [forallb snd]. rewrite Hx. exact (IH Hl).
+Qed.
